@@ -1,6 +1,6 @@
 (* P_Shares.v — proofs about model.M_Shares (property C11). *)
 From Coq Require Import ZArith List Bool Lia.
-From FxV Require Import lib.Dec model.M_Shares.
+From FxV Require Import lib.Dec model.M_Shares gen.Gen_C11.
 Import ListNotations.
 Open Scope Z_scope.
 
@@ -168,67 +168,110 @@ Proof.
 Qed.
 
 (* ====================================================================== *)
-(* 2. the distribution primitives: what they do to the reference counts    *)
+(* 2. the distribution primitives: what they do to the reference counts,   *)
+(*    the cumulative ratios and the reward pots                            *)
 (* ====================================================================== *)
 Definition b2z (b : bool) : Z := if b then 1 else 0.
 
-(* everything except the historical records and the period *)
+Ltac psimpl := cbn [v_tokens v_shares v_status v_jailed v_ubh v_dels v_period v_cur v_out v_hist v_ratio
+                    v_start v_slashes set_tokens set_shares set_status set_jailed set_ubh set_dels set_period
+                    set_cur set_out set_hist set_ratio set_start set_slashes].
+Tactic Notation "psimpl" "in" hyp(H) :=
+  cbn [v_tokens v_shares v_status v_jailed v_ubh v_dels v_period v_cur v_out v_hist v_ratio
+       v_start v_slashes set_tokens set_shares set_status set_jailed set_ubh set_dels set_period
+       set_cur set_out set_hist set_ratio set_start set_slashes] in H.
+Tactic Notation "psimpl" "in" "*" :=
+  cbn [v_tokens v_shares v_status v_jailed v_ubh v_dels v_period v_cur v_out v_hist v_ratio
+       v_start v_slashes set_tokens set_shares set_status set_jailed set_ubh set_dels set_period
+       set_cur set_out set_hist set_ratio set_start set_slashes] in *.
+
+(* the staking side and the delegator-level distribution records *)
 Definition rest_same (v v' : vstate) : Prop :=
   v_tokens v' = v_tokens v /\ v_shares v' = v_shares v /\ v_dels v' = v_dels v /\
-  v_start v' = v_start v /\ v_slashes v' = v_slashes v.
+  v_start v' = v_start v /\ v_slashes v' = v_slashes v /\
+  (v_status v' = v_status v /\ v_jailed v' = v_jailed v /\ v_ubh v' = v_ubh v).
 
 Lemma rest_same_refl : forall v, rest_same v v.
 Proof. intros; repeat split. Qed.
 
 Lemma rest_same_trans : forall a b c, rest_same a b -> rest_same b c -> rest_same a c.
-Proof. unfold rest_same; intros a b c (?&?&?&?&?) (?&?&?&?&?); repeat split; congruence. Qed.
-
-Lemma href_set_hist_kset : forall v q c p,
-  href p (set_hist (kset q c (v_hist v)) v) = if p =? q then c else href p v.
 Proof.
-  intros. unfold href; cbn. destruct (Z.eqb_spec p q) as [->|N].
+  unfold rest_same; intros a b c (?&?&?&?&?&?&?&?) (?&?&?&?&?&?&?&?); repeat split; congruence.
+Qed.
+
+Lemma href_kset : forall hm q c p,
+  match kget p (kset q c hm) with Some x => x | None => 0 end =
+  if p =? q then c else match kget p hm with Some x => x | None => 0 end.
+Proof.
+  intros. destruct (Z.eqb_spec p q) as [->|N].
   - now rewrite kget_kset_same.
   - now rewrite kget_kset_other.
 Qed.
 
-Lemma href_set_hist_kdel : forall v q p,
-  href p (set_hist (kdel q (v_hist v)) v) = if p =? q then 0 else href p v.
+Lemma href_kdel : forall (hm : list (Z * Z)) q p,
+  match kget p (kdel q hm) with Some x => x | None => 0 end =
+  if p =? q then 0 else match kget p hm with Some x => x | None => 0 end.
 Proof.
-  intros. unfold href; cbn. destruct (Z.eqb_spec p q) as [->|N].
+  intros. destruct (Z.eqb_spec p q) as [->|N].
   - now rewrite kget_kdel_same.
   - now rewrite kget_kdel_other.
 Qed.
 
+(* what dec_ref leaves alone *)
+Definition pots_same (v v' : vstate) : Prop :=
+  v_period v' = v_period v /\ v_cur v' = v_cur v /\ v_out v' = v_out v.
+
 Lemma dec_ref_spec : forall q v v', dec_ref q v = Ok v' ->
   rest_same v v' /\ v_period v' = v_period v /\ href q v <> 0 /\
-  forall p, href p v' = href p v - b2z (p =? q).
+  (forall p, href p v' = href p v - b2z (p =? q)).
 Proof.
   unfold dec_ref; intros q v v' H.
   destruct (href q v =? 0) eqn:Z0; [discriminate|]. apply Z.eqb_neq in Z0.
   destruct (href q v - 1 =? 0) eqn:Z1; inversion H; subst; clear H.
   - apply Z.eqb_eq in Z1. repeat split; try assumption.
-    intros p. rewrite href_set_hist_kdel. unfold b2z. destruct (Z.eqb_spec p q); subst; lia.
+    intros p. unfold href in *. psimpl. rewrite href_kdel. unfold b2z. destruct (Z.eqb_spec p q); subst; lia.
   - repeat split; try assumption.
-    intros p. rewrite href_set_hist_kset. unfold b2z. destruct (Z.eqb_spec p q); subst; lia.
+    intros p. unfold href in *. psimpl. rewrite href_kset. unfold b2z. destruct (Z.eqb_spec p q); subst; lia.
+Qed.
+
+(* ... and to the ratios: only the record of q can go, and only when its last reference went *)
+Lemma dec_ref_ratio : forall q v v', dec_ref q v = Ok v' ->
+  v_cur v' = v_cur v /\ v_out v' = v_out v /\
+  (forall p, p <> q \/ href q v <> 1 -> hratio p v' = hratio p v).
+Proof.
+  unfold dec_ref; intros q v v' H.
+  destruct (href q v =? 0) eqn:Z0; [discriminate|].
+  destruct (href q v - 1 =? 0) eqn:Z1; inversion H; subst; clear H.
+  - apply Z.eqb_eq in Z1. repeat split. intros p [N|N]; [|lia].
+    unfold hratio. psimpl. now rewrite kget_kdel_other.
+  - repeat split.
 Qed.
 
 Lemma inc_ref_spec : forall q v v', inc_ref q v = Ok v' ->
   rest_same v v' /\ v_period v' = v_period v /\
-  forall p, href p v' = href p v + b2z (p =? q).
+  (forall p, href p v' = href p v + b2z (p =? q)).
 Proof.
   unfold inc_ref; intros q v v' H.
   destruct (2 <? href q v); inversion H; subst; clear H.
-  repeat split. intros p. rewrite href_set_hist_kset. unfold b2z. destruct (Z.eqb_spec p q); subst; lia.
+  repeat split. intros p. unfold href. psimpl. rewrite href_kset. unfold b2z. destruct (Z.eqb_spec p q); subst; lia.
 Qed.
 
 Lemma inc_ref_precompile_spec : forall q v v', inc_ref_precompile q v = Ok v' ->
   rest_same v v' /\ v_period v' = v_period v /\
-  forall p, href p v' = href p v + b2z (p =? q).
+  (forall p, href p v' = href p v + b2z (p =? q)).
 Proof.
   unfold inc_ref_precompile; intros q v v' H.
   destruct (2 <? href q v); inversion H; subst; clear H.
-  repeat split. intros p. rewrite href_set_hist_kset. unfold b2z. destruct (Z.eqb_spec p q); subst; lia.
+  repeat split. intros p. unfold href. psimpl. rewrite href_kset. unfold b2z. destruct (Z.eqb_spec p q); subst; lia.
 Qed.
+
+Lemma inc_ref_ratio : forall q v v', inc_ref q v = Ok v' ->
+  v_cur v' = v_cur v /\ v_out v' = v_out v /\ v_ratio v' = v_ratio v.
+Proof. unfold inc_ref; intros q v v' H. destruct (2 <? href q v); inversion H; subst. repeat split. Qed.
+
+Lemma inc_ref_precompile_ratio : forall q v v', inc_ref_precompile q v = Ok v' ->
+  v_cur v' = v_cur v /\ v_out v' = v_out v /\ v_ratio v' = v_ratio v.
+Proof. unfold inc_ref_precompile; intros q v v' H. destruct (2 <? href q v); inversion H; subst. repeat split. Qed.
 
 Lemma inc_ref_ok : forall q v, href q v <= 2 -> exists v', inc_ref q v = Ok v'.
 Proof. unfold inc_ref; intros q v H. destruct (2 <? href q v) eqn:E; [apply Z.ltb_lt in E; lia|eauto]. Qed.
@@ -243,26 +286,64 @@ Lemma bind_ok : forall {A B} (r : res A) (f : A -> res B) b,
   bind r f = Ok b -> exists a, r = Ok a /\ f a = Ok b.
 Proof. intros A B [a| |] f b H; cbn in H; try discriminate. eauto. Qed.
 
+(* the ratio increment of the period that ends, and what is left outstanding *)
+Definition period_ratio (v : vstate) : Z :=
+  if v_tokens v =? 0 then 0 else dec_quo_trunc (v_cur v) (dec_of_int (v_tokens v)).
+Definition out_after_period (v : vstate) : Z :=
+  if v_tokens v =? 0 then v_out v - v_cur v else v_out v.
+
 Lemma incr_period_spec : forall v v', incr_period v = Ok v' ->
   rest_same v v' /\ v_period v' = v_period v + 1 /\ href (v_period v - 1) v <> 0 /\
-  forall p, href p v' = if p =? v_period v then 1 else href p v - b2z (p =? v_period v - 1).
+  (forall p, href p v' = if p =? v_period v then 1 else href p v - b2z (p =? v_period v - 1)).
 Proof.
   unfold incr_period; intros v v' H.
+  apply bind_ok in H as ([current out'] & _ & H).
   apply bind_ok in H as (v1 & D & H). inversion H; subst; clear H.
   apply dec_ref_spec in D as (R & P & NZ & HR).
   split; [|split; [|split]].
-  - destruct R as (?&?&?&?&?). repeat split; cbn; assumption.
+  - destruct R as (?&?&?&?&?&?&?&?). repeat split; psimpl; assumption.
   - reflexivity.
   - assumption.
-  - intros p. specialize (HR p). unfold href in *. cbn [v_hist set_period set_hist].
+  - intros p. specialize (HR p). unfold href in *. psimpl.
     destruct (Z.eqb_spec p (v_period v)) as [->|N].
     + now rewrite kget_kset_same.
     + rewrite kget_kset_other by assumption. exact HR.
 Qed.
 
-Lemma incr_period_ok : forall v, href (v_period v - 1) v <> 0 -> exists v', incr_period v = Ok v'.
+Lemma incr_period_ratio : forall v v', incr_period v = Ok v' ->
+  v_cur v' = 0 /\ v_out v' = out_after_period v /\
+  (v_tokens v = 0 -> 0 <= v_out v - v_cur v) /\
+  hratio (v_period v) v' = hratio (v_period v - 1) v + period_ratio v /\
+  (forall p, p <> v_period v -> (p <> v_period v - 1 \/ href (v_period v - 1) v <> 1) ->
+             hratio p v' = hratio p v).
 Proof.
-  intros v H. unfold incr_period. destruct (dec_ref_ok _ _ H) as [v1 E]. rewrite E. cbn. eauto.
+  unfold incr_period, period_ratio, out_after_period; intros v v' H.
+  apply bind_ok in H as ([current out'] & E & H).
+  apply bind_ok in H as (v1 & D & H). inversion H; subst; clear H.
+  apply dec_ref_ratio in D as (_ & _ & HR).
+  assert (EE : current = (if v_tokens v =? 0 then 0 else dec_quo_trunc (v_cur v) (dec_of_int (v_tokens v))) /\
+               out' = (if v_tokens v =? 0 then v_out v - v_cur v else v_out v) /\
+               (v_tokens v = 0 -> 0 <= v_out v - v_cur v)).
+  { destruct (Z.eqb_spec (v_tokens v) 0).
+    - destruct (v_out v - v_cur v <? 0) eqn:L; [discriminate|]. inversion E; subst. apply Z.ltb_ge in L.
+      repeat split; lia.
+    - inversion E; subst. repeat split; lia. }
+  destruct EE as (-> & -> & Hpos).
+  psimpl. split; [reflexivity|]. split; [reflexivity|]. split; [exact Hpos|]. split.
+  - unfold hratio at 1. psimpl. now rewrite kget_kset_same.
+  - intros p N C. unfold hratio at 1. psimpl. rewrite kget_kset_other by assumption.
+    fold (hratio p v1). apply HR. exact C.
+Qed.
+
+Lemma incr_period_ok : forall v,
+  href (v_period v - 1) v <> 0 -> (v_tokens v = 0 -> 0 <= v_out v - v_cur v) ->
+  exists v', incr_period v = Ok v'.
+Proof.
+  intros v H C. unfold incr_period. destruct (dec_ref_ok _ _ H) as [v1 E].
+  destruct (Z.eqb_spec (v_tokens v) 0) as [T|T].
+  - destruct (v_out v - v_cur v <? 0) eqn:L; [apply Z.ltb_lt in L; specialize (C T); lia|].
+    cbn [bind]. rewrite E. cbn [bind]. eauto.
+  - cbn [bind]. rewrite E. cbn [bind]. eauto.
 Qed.
 
 (* ====================================================================== *)
@@ -270,14 +351,15 @@ Qed.
       per validator and per period) and its preservation by the primitives  *)
 (* ====================================================================== *)
 Definition cnt_start (p : Z) (m : list (Z * sinfo)) : Z := ksumf (fun si => b2z (si_prev si =? p)) m.
-Fixpoint cnt_slash (p : Z) (l : list (Z * Z)) : Z :=
-  match l with [] => 0 | e :: r => b2z (snd e =? p) + cnt_slash p r end.
+Definition sl_period (e : Z * Z * Z) : Z := snd (fst e).
+Fixpoint cnt_slash (p : Z) (l : list (Z * Z * Z)) : Z :=
+  match l with [] => 0 | e :: r => b2z (sl_period e =? p) + cnt_slash p r end.
 
 Record F1 (v : vstate) : Prop := {
   F_ss : sorted (v_start v);
   F_ref : forall p, href p v = cnt_start p (v_start v) + cnt_slash p (v_slashes v) + b2z (p =? v_period v - 1);
   F_sp : Forall (fun e => si_prev (snd e) < v_period v) (v_start v);
-  F_slp : Forall (fun e => snd e < v_period v) (v_slashes v)
+  F_slp : Forall (fun e => sl_period e < v_period v) (v_slashes v)
 }.
 
 (* lia with the remaining b2z terms abstracted (zify trips over Z.eqb under an unknown function) *)
@@ -292,7 +374,7 @@ Lemma cnt_start_nonneg : forall p m, 0 <= cnt_start p m.
 Proof. intros. apply ksumf_nonneg. intros; apply b2z_nonneg. Qed.
 
 Lemma cnt_slash_nonneg : forall p l, 0 <= cnt_slash p l.
-Proof. induction l; cbn; [lia|]. pose proof (b2z_nonneg (snd a =? p)). lia. Qed.
+Proof. induction l; cbn; [lia|]. pose proof (b2z_nonneg (sl_period a =? p)). lia. Qed.
 
 Lemma cnt_start_zero_ge : forall P p m,
   Forall (fun e => si_prev (snd e) < P) m -> P <= p -> cnt_start p m = 0.
@@ -302,13 +384,13 @@ Proof.
 Qed.
 
 Lemma cnt_slash_zero_ge : forall P p l,
-  Forall (fun e => snd e < P) l -> P <= p -> cnt_slash p l = 0.
+  Forall (fun e => sl_period e < P) l -> P <= p -> cnt_slash p l = 0.
 Proof.
   intros P p l F L. induction F as [|e r H F IH]; cbn; [reflexivity|].
-  rewrite IH. destruct (Z.eqb_spec (snd e) p); [lia|reflexivity].
+  rewrite IH. destruct (Z.eqb_spec (sl_period e) p); [lia|reflexivity].
 Qed.
 
-Lemma cnt_slash_app : forall p l e, cnt_slash p (l ++ [e]) = cnt_slash p l + b2z (snd e =? p).
+Lemma cnt_slash_app : forall p l e, cnt_slash p (l ++ [e]) = cnt_slash p l + b2z (sl_period e =? p).
 Proof. induction l; intros; cbn; [lia|]. rewrite IHl. lia. Qed.
 
 Lemma cnt_start_ge1 : forall a m si, kget a m = Some si -> 1 <= cnt_start (si_prev si) m.
@@ -334,7 +416,7 @@ Qed.
 
 Lemma incr_period_F1 : forall v v', F1 v -> incr_period v = Ok v' -> F1 v'.
 Proof.
-  intros v v' [S R SP SL] H. apply incr_period_spec in H as ((_&_&_&Hs&Hl) & Hp & _ & HR).
+  intros v v' [S R SP SL] H. apply incr_period_spec in H as ((_&_&_&Hs&Hl&_) & Hp & _ & HR).
   constructor.
   - now rewrite Hs.
   - intros p. rewrite HR, Hs, Hl, Hp.
@@ -355,8 +437,8 @@ Lemma F1_remove : forall v a si v2,
   F1 (set_start (kdel a (v_start v2)) v2).
 Proof.
   intros v a si v2 [S R SP SL] G D.
-  apply dec_ref_spec in D as ((_&_&_&Hs&Hl) & Hp & _ & HR).
-  constructor; cbn [v_start v_slashes v_period set_start].
+  apply dec_ref_spec in D as ((_&_&_&Hs&Hl&_) & Hp & _ & HR).
+  constructor; psimpl.
   - rewrite Hs. now apply sorted_kdel.
   - intros p. rewrite (href_ext v2 _ p) by reflexivity. rewrite HR, Hs, Hl, Hp.
     unfold cnt_start. rewrite ksumf_kdel by assumption. rewrite G. cbn [gof].
@@ -374,8 +456,8 @@ Lemma F1_add : forall v v1 a si,
   si_prev si = v_period v - 1 ->
   F1 (set_start (kset a si (v_start v1)) v1).
 Proof.
-  intros v v1 a si [S R SP SL] G (_&_&_&Hs&Hl) Hp HR Hsi.
-  constructor; cbn [v_start v_slashes v_period set_start].
+  intros v v1 a si [S R SP SL] G (_&_&_&Hs&Hl&_) Hp HR Hsi.
+  constructor; psimpl.
   - rewrite Hs. now apply sorted_kset.
   - intros p. rewrite (href_ext v1 _ p) by reflexivity. rewrite HR, Hs, Hl, Hp.
     unfold cnt_start. rewrite ksumf_kset by assumption. rewrite G. cbn [gof].
@@ -390,7 +472,7 @@ Lemma F1_restake : forall v a si si',
   F1 (set_start (kset a si' (v_start v)) v).
 Proof.
   intros v a si si' [S R SP SL] G E.
-  constructor; cbn [v_start v_slashes v_period set_start].
+  constructor; psimpl.
   - now apply sorted_kset.
   - intros p. rewrite (href_ext v _ p) by reflexivity.
     unfold cnt_start. rewrite ksumf_kset by assumption. rewrite G. cbn [gof].
@@ -400,11 +482,14 @@ Proof.
   - assumption.
 Qed.
 
+
 (* ====================================================================== *)
 (* 4. withdrawDelegationRewards / initializeDelegation                      *)
 (* ====================================================================== *)
 Definition stk_same (v v' : vstate) : Prop :=
   v_tokens v' = v_tokens v /\ v_shares v' = v_shares v /\ v_dels v' = v_dels v.
+Definition meta_same (v v' : vstate) : Prop :=
+  v_status v' = v_status v /\ v_jailed v' = v_jailed v /\ v_ubh v' = v_ubh v.
 
 Lemma khas_true : forall {A} (m : list (Z * A)) k, khas k m = true -> exists a, kget k m = Some a.
 Proof. unfold khas; intros A m k H. destruct (kget k m); [eauto|discriminate]. Qed.
@@ -415,43 +500,64 @@ Proof. unfold khas; intros A m k a H. now rewrite H. Qed.
 Lemma kget_khas_none : forall {A} (m : list (Z * A)) k, kget k m = None -> khas k m = false.
 Proof. unfold khas; intros A m k H. now rewrite H. Qed.
 
-Lemma withdraw_rewards_frame : forall a v v', withdraw_rewards a v = Ok v' ->
-  stk_same v v' /\ v_slashes v' = v_slashes v /\ v_period v' = v_period v + 1 /\
-  v_start v' = kdel a (v_start v) /\ khas a (v_start v) = true.
+(* the pieces of withdraw_rewards, named *)
+Lemma withdraw_rewards_inv : forall h a v v' paid, withdraw_rewards h a v = Ok (v', paid) ->
+  exists si v1 raw v2,
+    kget a (v_start v) = Some si /\ incr_period v = Ok v1 /\
+    calc_rewards h (v_period v) si (match kget a (v_dels v) with Some d => d | None => 0 end) v1 = Ok raw /\
+    paid = dec_trunc_int (Z.min raw (v_out v1)) /\
+    dec_ref (si_prev si) (set_out (v_out v1 - Z.min raw (v_out v1)) v1) = Ok v2 /\
+    v' = set_start (kdel a (v_start v2)) v2.
 Proof.
-  unfold withdraw_rewards; intros a v v' H.
+  unfold withdraw_rewards; intros h a v v' paid H.
   destruct (kget a (v_start v)) as [s|] eqn:G; [|discriminate].
   apply bind_ok in H as (v1 & I & H).
-  apply incr_period_spec in I as ((T1&S1&D1&St1&Sl1) & P1 & _ & _).
+  pose proof (incr_period_spec _ _ I) as ((_&_&_&St1&_) & _).
+  rewrite St1, G in H.
+  apply bind_ok in H as (raw & C & H).
   apply bind_ok in H as (v2 & D & H). inversion H; subst; clear H.
-  apply dec_ref_spec in D as ((T2&S2&D2&St2&Sl2) & P2 & _ & _).
-  unfold stk_same. cbn [v_tokens v_shares v_dels v_slashes v_period v_start set_start].
+  exists s, v1, raw, v2. repeat split; assumption.
+Qed.
+
+Lemma withdraw_rewards_frame : forall h a v v' paid, withdraw_rewards h a v = Ok (v', paid) ->
+  stk_same v v' /\ v_slashes v' = v_slashes v /\ meta_same v v' /\ v_period v' = v_period v + 1 /\
+  v_start v' = kdel a (v_start v) /\ khas a (v_start v) = true /\ v_cur v' = 0.
+Proof.
+  intros h a v v' paid H.
+  apply withdraw_rewards_inv in H as (si & v1 & raw & v2 & G & I & _ & _ & D & ->).
+  pose proof (incr_period_ratio _ _ I) as (C1 & _).
+  apply incr_period_spec in I as ((T1&S1&D1&St1&Sl1&M1a&M1b&M1c) & P1 & _ & _).
+  pose proof (dec_ref_ratio _ _ _ D) as (C2 & _).
+  apply dec_ref_spec in D as ((T2&S2&D2&St2&Sl2&M2a&M2b&M2c) & P2 & _ & _).
+  psimpl in *. unfold stk_same, meta_same. psimpl.
   repeat split; try congruence. apply (kget_khas _ _ _ G).
 Qed.
 
-Lemma withdraw_rewards_F1 : forall a v v', F1 v -> withdraw_rewards a v = Ok v' -> F1 v'.
+Lemma F1_set_out : forall x v, F1 v -> F1 (set_out x v).
+Proof. intros x v F. eapply F1_ext; [| | | |exact F]; reflexivity. Qed.
+
+Lemma withdraw_rewards_F1 : forall h a v v' paid, F1 v -> withdraw_rewards h a v = Ok (v', paid) -> F1 v'.
 Proof.
-  unfold withdraw_rewards; intros a v v' F H.
-  destruct (kget a (v_start v)) as [s|] eqn:G; [|discriminate].
-  apply bind_ok in H as (v1 & I & H).
+  intros h a v v' paid F H.
+  apply withdraw_rewards_inv in H as (si & v1 & raw & v2 & G & I & _ & _ & D & ->).
   pose proof (incr_period_F1 _ _ F I) as F1'.
-  apply incr_period_spec in I as ((_&_&_&St1&_) & _ & _ & _).
-  rewrite St1, G in H.
-  apply bind_ok in H as (v2 & D & H). inversion H; subst; clear H.
-  eapply F1_remove; [exact F1'| |exact D]. now rewrite St1.
+  apply incr_period_spec in I as ((_&_&_&St1&_) & _).
+  eapply F1_remove; [apply F1_set_out; exact F1'| |exact D]. psimpl. now rewrite St1.
 Qed.
 
 Lemma init_delegation_frame : forall h a v v', init_delegation h a v = Ok v' ->
-  stk_same v v' /\ v_slashes v' = v_slashes v /\ v_period v' = v_period v /\
+  stk_same v v' /\ v_slashes v' = v_slashes v /\ meta_same v v' /\ v_period v' = v_period v /\
+  v_cur v' = v_cur v /\ v_out v' = v_out v /\ v_ratio v' = v_ratio v /\
   khas a (v_dels v) = true /\
   exists si, v_start v' = kset a si (v_start v) /\ si_prev si = v_period v - 1 /\ si_height si = h.
 Proof.
   unfold init_delegation; intros h a v v' H.
   apply bind_ok in H as (v1 & I & H).
-  apply inc_ref_spec in I as ((T1&S1&D1&St1&Sl1) & P1 & _).
+  pose proof (inc_ref_ratio _ _ _ I) as (C1 & O1 & R1).
+  apply inc_ref_spec in I as ((T1&S1&D1&St1&Sl1&Ma&Mb&Mc) & P1 & _).
   destruct (kget a (v_dels v1)) as [sh|] eqn:G; [|discriminate].
   apply bind_ok in H as (stake & _ & H). inversion H; subst; clear H.
-  unfold stk_same. cbn [v_tokens v_shares v_dels v_slashes v_period v_start set_start].
+  unfold stk_same, meta_same. psimpl.
   repeat split; try congruence.
   - rewrite D1 in G. apply (kget_khas _ _ _ G).
   - eexists; split; [rewrite St1; reflexivity|]. cbn. split; reflexivity.
@@ -468,57 +574,60 @@ Proof.
   eapply F1_add; eauto.
 Qed.
 
-Lemma wdr_frame : forall h a v v', withdraw_delegation_rewards h a v = Ok v' ->
-  stk_same v v' /\ v_slashes v' = v_slashes v /\ v_period v' = v_period v + 1 /\
-  khas a (v_dels v) = true /\ khas a (v_start v) = true /\
+Lemma wdr_frame : forall h a v v' paid, withdraw_delegation_rewards h a v = Ok (v', paid) ->
+  stk_same v v' /\ v_slashes v' = v_slashes v /\ meta_same v v' /\ v_period v' = v_period v + 1 /\
+  khas a (v_dels v) = true /\ khas a (v_start v) = true /\ v_cur v' = 0 /\
   exists si, v_start v' = kset a si (kdel a (v_start v)) /\ si_prev si = v_period v /\ si_height si = h.
 Proof.
-  unfold withdraw_delegation_rewards; intros h a v v' H.
+  unfold withdraw_delegation_rewards; intros h a v v' paid H.
   destruct (kget a (v_dels v)) as [d|] eqn:G; [|discriminate].
-  apply bind_ok in H as (v1 & W & H).
-  apply withdraw_rewards_frame in W as ((T1&S1&D1) & Sl1 & P1 & St1 & K1).
-  apply init_delegation_frame in H as ((T2&S2&D2) & Sl2 & P2 & K2 & si & St2 & Pv & Hh).
-  unfold stk_same. split; [repeat split; congruence|]. split; [congruence|]. split; [congruence|].
-  split; [apply (kget_khas _ _ _ G)|]. split; [assumption|].
+  apply bind_ok in H as ([v1 p1] & W & H). cbn [fst snd] in H.
+  apply bind_ok in H as (v2 & I & H). inversion H; subst; clear H.
+  apply withdraw_rewards_frame in W as ((T1&S1&D1) & Sl1 & (Ma&Mb&Mc) & P1 & St1 & K1 & C1).
+  apply init_delegation_frame in I as ((T2&S2&D2) & Sl2 & (Na&Nb&Nc) & P2 & C2 & _ & _ & K2 & si & St2 & Pv & Hh).
+  unfold stk_same, meta_same.
+  split; [repeat split; congruence|]. split; [congruence|]. split; [repeat split; congruence|].
+  split; [congruence|]. split; [apply (kget_khas _ _ _ G)|]. split; [assumption|]. split; [congruence|].
   exists si. split; [congruence|]. split; [rewrite Pv, P1; lia|assumption].
 Qed.
 
-Lemma wdr_F1 : forall h a v v', F1 v -> withdraw_delegation_rewards h a v = Ok v' -> F1 v'.
+Lemma wdr_F1 : forall h a v v' paid, F1 v -> withdraw_delegation_rewards h a v = Ok (v', paid) -> F1 v'.
 Proof.
-  unfold withdraw_delegation_rewards; intros h a v v' F H.
+  unfold withdraw_delegation_rewards; intros h a v v' paid F H.
   destruct (kget a (v_dels v)) as [d|] eqn:G; [|discriminate].
-  apply bind_ok in H as (v1 & W & H).
-  pose proof (withdraw_rewards_F1 _ _ _ F W) as F1'.
-  apply withdraw_rewards_frame in W as (_ & _ & _ & St1 & _).
-  eapply init_delegation_F1; [exact F1'| |exact H]. rewrite St1. apply kget_kdel_same.
+  apply bind_ok in H as ([v1 p1] & W & H). cbn [fst snd] in H.
+  apply bind_ok in H as (v2 & I & H). inversion H; subst; clear H.
+  pose proof (withdraw_rewards_F1 _ _ _ _ _ F W) as F1'.
+  apply withdraw_rewards_frame in W as (_ & _ & _ & _ & St1 & _).
+  eapply init_delegation_F1; [exact F1'| |exact I]. rewrite St1. apply kget_kdel_same.
 Qed.
 
 (* ====================================================================== *)
 (* 5. the three blocks of handlerTransferShares                            *)
 (* ====================================================================== *)
-Lemma ts_read_to_frame : forall h to v1 v2 toDel toFound,
-  ts_read_to h to v1 = Ok (v2, toDel, toFound) ->
+Lemma ts_read_to_frame : forall h to v1 v2 toDel toFound pt,
+  ts_read_to h to v1 = Ok (v2, toDel, toFound, pt) ->
   stk_same v1 v2 /\ v_slashes v2 = v_slashes v1 /\ v_period v2 = v_period v1 + 1 /\
   ((toFound = false /\ kget to (v_dels v1) = None /\ toDel = 0 /\ v_start v2 = v_start v1) \/
    (toFound = true /\ kget to (v_dels v1) = Some toDel /\ khas to (v_start v1) = true /\
-    exists si, v_start v2 = kset to si (kdel to (v_start v1)))).
+    exists si, v_start v2 = kset to si (kdel to (v_start v1)) /\ si_height si = h)).
 Proof.
-  unfold ts_read_to; intros h to v1 v2 toDel toFound H.
+  unfold ts_read_to; intros h to v1 v2 toDel toFound pt H.
   destruct (kget to (v_dels v1)) as [d|] eqn:G.
-  - apply bind_ok in H as (w & W & H). inversion H; subst; clear H.
-    apply wdr_frame in W as (S & Sl & P & _ & K & si & St & _).
+  - apply bind_ok in H as ([w pw] & W & H). cbn [fst snd] in H. inversion H; subst; clear H.
+    apply wdr_frame in W as (S & Sl & _ & P & _ & K & _ & si & St & _ & Hh).
     repeat split; try apply S; try assumption. right. repeat split; try assumption. eauto.
   - apply bind_ok in H as (w & I & H). inversion H; subst; clear H.
-    apply incr_period_spec in I as ((T&S&D&St&Sl) & P & _ & _).
+    apply incr_period_spec in I as ((T&S&D&St&Sl&_) & P & _ & _).
     unfold stk_same. repeat split; try assumption. left. repeat split; assumption.
 Qed.
 
-Lemma ts_read_to_F1 : forall h to v1 v2 toDel toFound,
-  F1 v1 -> ts_read_to h to v1 = Ok (v2, toDel, toFound) -> F1 v2.
+Lemma ts_read_to_F1 : forall h to v1 v2 toDel toFound pt,
+  F1 v1 -> ts_read_to h to v1 = Ok (v2, toDel, toFound, pt) -> F1 v2.
 Proof.
-  unfold ts_read_to; intros h to v1 v2 toDel toFound F H.
+  unfold ts_read_to; intros h to v1 v2 toDel toFound pt F H.
   destruct (kget to (v_dels v1)) as [d|] eqn:G.
-  - apply bind_ok in H as (w & W & H). inversion H; subst; clear H. eapply wdr_F1; eauto.
+  - apply bind_ok in H as ([w pw] & W & H). cbn [fst snd] in H. inversion H; subst; clear H. eapply wdr_F1; eauto.
   - apply bind_ok in H as (w & I & H). inversion H; subst; clear H. eapply incr_period_F1; eauto.
 Qed.
 
@@ -534,11 +643,11 @@ Proof.
   unfold ts_write_from; intros tok vsh from fromDel shares v2 v3 H.
   destruct (fromDel - shares =? 0).
   - apply bind_ok in H as (w & D & H). inversion H; subst; clear H.
-    apply dec_ref_spec in D as ((T&S&Dl&St&Sl) & P & _ & _).
-    cbn [v_tokens v_shares v_dels v_slashes v_period v_start set_start set_dels] in *.
+    apply dec_ref_spec in D as ((T&S&Dl&St&Sl&_) & P & _ & _).
+    psimpl in *.
     repeat split; try congruence. all: try (exists sinfo_zero; congruence).
   - apply bind_ok in H as (stake & _ & H). inversion H; subst; clear H.
-    cbn [v_tokens v_shares v_dels v_slashes v_period v_start set_start set_dels].
+    psimpl.
     repeat split. eauto.
 Qed.
 
@@ -574,12 +683,12 @@ Proof.
   unfold ts_write_to; intros h tok vsh to toDel shares toFound v3 v5 H.
   destruct (negb toFound).
   - apply bind_ok in H as (w & I & H).
-    apply inc_ref_precompile_spec in I as ((T&S&D&St&Sl) & P & _).
+    apply inc_ref_precompile_spec in I as ((T&S&D&St&Sl&_) & P & _).
     apply bind_ok in H as (stake & _ & H). inversion H; subst; clear H.
-    cbn [v_tokens v_shares v_dels v_slashes v_period v_start set_start set_dels] in *.
+    psimpl in *.
     repeat split; try congruence. eexists. rewrite St. reflexivity.
   - apply bind_ok in H as (stake & _ & H). inversion H; subst; clear H.
-    cbn [v_tokens v_shares v_dels v_slashes v_period v_start set_start set_dels].
+    psimpl.
     repeat split. eauto.
 Qed.
 
@@ -591,7 +700,7 @@ Proof.
   unfold ts_write_to; intros h tok vsh to toDel shares toFound v3 v5 F K H.
   destruct toFound; cbn [negb] in H.
   - apply khas_true in K as (si & G).
-    cbn [v_start set_dels] in H. rewrite G in H.
+    psimpl in H. rewrite G in H.
     apply bind_ok in H as (stake & _ & H). inversion H; subst; clear H.
     apply (F1_restake (set_dels (kset to (toDel + shares) (v_dels v3)) v3) to si).
     + now apply F1_set_dels.
@@ -609,6 +718,7 @@ Proof.
     + reflexivity.
 Qed.
 
+
 (* ====================================================================== *)
 (* 6. transferShares: exactness (no invariant needed)                      *)
 (* ====================================================================== *)
@@ -616,23 +726,23 @@ Definition idf (x : Z) : Z := x.
 Definition dsum (m : list (Z * Z)) : Z := ksumf idf m.
 Definition dget (a : Z) (v : vstate) : Z := gof idf (kget a (v_dels v)).
 
-Lemma transfer_dels : forall h recv from to x v v',
-  transfer_shares_prefix h recv from to x v = Ok v' ->
+Lemma transfer_dels : forall h recv from to x v v' pf pt,
+  transfer_shares_prefix h recv from to x v = Ok (v', pf, pt) ->
   exists fd, kget from (v_dels v) = Some fd /\ dec_of_int x <= fd /\ recv = false /\
   v_tokens v' = v_tokens v /\ v_shares v' = v_shares v /\ v_slashes v' = v_slashes v /\
   v_dels v' = kset to (dget to v + dec_of_int x)
                 (if fd - dec_of_int x =? 0 then kdel from (v_dels v)
                  else kset from (fd - dec_of_int x) (v_dels v)).
 Proof.
-  unfold transfer_shares_prefix; intros h recv from to x v v' H.
+  unfold transfer_shares_prefix; intros h recv from to x v v' pf pt H.
   destruct (kget from (v_dels v)) as [fd|] eqn:Gf; [|discriminate].
   destruct recv; [discriminate|].
   destruct (fd <? dec_of_int x) eqn:L; [discriminate|]. apply Z.ltb_ge in L.
-  apply bind_ok in H as (v1 & W & H).
-  apply bind_ok in H as (r & R & H). destruct r as [[v2 toDel] toFound].
+  apply bind_ok in H as ([v1 p1] & W & H). cbn [fst snd] in H.
+  apply bind_ok in H as (r & R & H). destruct r as [[[v2 toDel] toFound] p2].
   apply bind_ok in H as (v3 & WF & H).
   apply bind_ok in H as (v5 & WT & H).
-  apply bind_ok in H as (t & _ & H). inversion H; subst v5; clear H.
+  apply bind_ok in H as (t & _ & H). inversion H; subst v5 pf pt; clear H.
   apply wdr_frame in W as ((T1&S1&D1) & Sl1 & _).
   apply ts_read_to_frame in R as ((T2&S2&D2) & Sl2 & _ & C).
   apply ts_write_from_frame in WF as (T3 & S3 & Sl3 & _ & D3 & _).
@@ -645,11 +755,11 @@ Proof.
   destruct C as [(_ & G & E & _)|(_ & G & _)]; rewrite G; cbn; [now rewrite E|reflexivity].
 Qed.
 
-Lemma transfer_shares_ok : forall h recv from to x v v',
-  transfer_shares h recv from to x v = Ok v' ->
-  from <> to /\ transfer_shares_prefix h recv from to x v = Ok v'.
+Lemma transfer_shares_ok : forall h recv from to x v r,
+  transfer_shares h recv from to x v = Ok r ->
+  from <> to /\ transfer_shares_prefix h recv from to x v = Ok r.
 Proof.
-  unfold transfer_shares; intros h recv from to x v v' H.
+  unfold transfer_shares; intros h recv from to x v r H.
   destruct (Z.eqb_spec from to); [discriminate|]. auto.
 Qed.
 
@@ -658,15 +768,15 @@ Lemma self_transfer_refused_v : forall h recv a x v, transfer_shares h recv a a 
 Proof. intros. unfold transfer_shares. now rewrite Z.eqb_refl. Qed.
 
 (* the statement of the property for an accepted transfer (then sender <> recipient) *)
-Lemma transfer_exact_v : forall h recv from to x v v',
-  transfer_shares h recv from to x v = Ok v' ->
+Lemma transfer_exact_v : forall h recv from to x v v' pf pt,
+  transfer_shares h recv from to x v = Ok (v', pf, pt) ->
   from <> to /\
   dget from v' = dget from v - dec_of_int x /\
   dget to v' = dget to v + dec_of_int x /\
   (forall c, c <> from -> c <> to -> kget c (v_dels v') = kget c (v_dels v)) /\
   v_tokens v' = v_tokens v /\ v_shares v' = v_shares v /\ dec_of_int x <= dget from v.
 Proof.
-  intros h recv from to x v v' H.
+  intros h recv from to x v v' pf pt H.
   apply transfer_shares_ok in H as (N & H). split; [exact N|].
   apply transfer_dels in H as (fd & Gf & L & _ & T & S & _ & D).
   unfold dget. rewrite D, Gf. cbn [gof idf].
@@ -681,11 +791,11 @@ Proof.
 Qed.
 
 (* PRE-FIX code only (before commit 458669b): what a transfer to oneself did, in every state *)
-Lemma prefix_self_transfer_v : forall h recv a x v v',
-  transfer_shares_prefix h recv a a x v = Ok v' ->
+Lemma prefix_self_transfer_v : forall h recv a x v v' pf pt,
+  transfer_shares_prefix h recv a a x v = Ok (v', pf, pt) ->
   dget a v' = dget a v + dec_of_int x /\ v_shares v' = v_shares v /\ v_tokens v' = v_tokens v.
 Proof.
-  intros h recv a x v v' H.
+  intros h recv a x v v' pf pt H.
   apply transfer_dels in H as (fd & Gf & L & _ & T & S & _ & D).
   unfold dget. rewrite D. unfold dget. rewrite Gf, kget_kset_same. cbn [gof]. unfold idf. repeat split; (assumption || reflexivity).
 Qed.
@@ -699,7 +809,8 @@ Record VInv (v : vstate) : Prop := {
   I_sum : dsum (v_dels v) = v_shares v;
   I_nn : Forall (fun e => 0 <= snd e) (v_dels v);
   I_keys : forall a, khas a (v_dels v) = khas a (v_start v);
-  I_tok : 0 <= v_tokens v
+  I_tok : 0 <= v_tokens v;
+  I_pots : 0 <= v_cur v <= v_out v     (* undistributed rewards are part of the outstanding rewards *)
 }.
 
 Lemma nn_get : forall m a d, Forall (fun e : Z * Z => 0 <= snd e) m -> kget a m = Some d -> 0 <= d.
@@ -714,38 +825,180 @@ Proof. intros m F. unfold dsum. induction F as [|[k a] r H F IH]; cbn [ksumf snd
 Lemma dec_of_int_nonneg : forall x, 0 <= x -> 0 <= dec_of_int x.
 Proof. intros. unfold dec_of_int. pose proof prec_pos. nia. Qed.
 
-Lemma wdr_inv : forall h a v v', VInv v -> withdraw_delegation_rewards h a v = Ok v' -> VInv v'.
+Lemma quot_nonneg : forall a b, 0 <= a -> 0 <= b -> 0 <= Z.quot a b.
 Proof.
-  intros h a v v' [F SD SU NN K T] H.
-  pose proof (wdr_F1 _ _ _ _ F H) as F'.
-  apply wdr_frame in H as ((T1&S1&D1) & _ & _ & Kd & Ks & si & St & _).
-  constructor; try (rewrite ?D1, ?S1, ?T1; assumption).
-  intros j. rewrite D1, St, khas_kset, khas_kdel.
-  destruct (Z.eqb_spec j a) as [->|]; [assumption|apply K].
+  intros a b A B. destruct (Z.eq_dec b 0) as [->|N]; [now rewrite Z.quot_0_r_ext|].
+  apply Z.quot_pos; lia.
 Qed.
 
-Lemma transfer_inv : forall h recv from to x v v',
-  0 <= x -> VInv v -> transfer_shares h recv from to x v = Ok v' -> VInv v'.
+(* ---------- reward amounts are never negative; the pots stay ordered ---------- *)
+Definition pots_ok (v : vstate) : Prop := 0 <= v_cur v <= v_out v.
+
+Lemma rewards_between_nonneg : forall sp ep stake v r, rewards_between sp ep stake v = Ok r -> 0 <= r.
 Proof.
-  intros h recv from to x v v' X [F SD SU NN K T] H.
+  unfold rewards_between, dec_mul_trunc; intros sp ep stake v r H.
+  destruct (ep <? sp); [discriminate|]. destruct (stake <? 0) eqn:S; [discriminate|]. apply Z.ltb_ge in S.
+  destruct (hratio ep v - hratio sp v <? 0) eqn:D; [discriminate|]. apply Z.ltb_ge in D.
+  inversion H; subst. apply quot_nonneg; [nia|pose proof prec_pos; lia].
+Qed.
+
+Lemma slash_walk_nonneg : forall evs sh eh v rw st sp rw' st' sp',
+  0 <= rw -> slash_walk evs sh eh v (rw, st, sp) = Ok (rw', st', sp') -> 0 <= rw'.
+Proof.
+  induction evs as [|[[hh p] f] r IH]; intros sh eh v rw st sp rw' st' sp' R H; cbn [slash_walk] in H.
+  - inversion H; subst; assumption.
+  - destruct ((sh <=? hh) && (hh <=? eh) && (sp <? p)).
+    + apply bind_ok in H as (dr & B & H). apply rewards_between_nonneg in B.
+      eapply IH; [|exact H]. lia.
+    + eapply IH; eauto.
+Qed.
+
+Lemma calc_rewards_nonneg : forall h e si d v raw, calc_rewards h e si d v = Ok raw -> 0 <= raw.
+Proof.
+  unfold calc_rewards; intros h e si d v raw H.
+  destruct (si_height si =? h); [inversion H; lia|].
+  apply bind_ok in H as ([[rw st] sp] & W & H).
+  assert (0 <= rw).
+  { destruct (si_height si <? h); [eapply slash_walk_nonneg; [|exact W]; lia|inversion W; lia]. }
+  apply bind_ok in H as (cs & _ & H). apply bind_ok in H as (st' & _ & H).
+  apply bind_ok in H as (dr & B & H). apply rewards_between_nonneg in B. inversion H; subst. lia.
+Qed.
+
+Lemma incr_period_pots : forall v v', pots_ok v -> incr_period v = Ok v' ->
+  v_cur v' = 0 /\ 0 <= v_out v' <= v_out v.
+Proof.
+  unfold pots_ok; intros v v' P H. apply incr_period_ratio in H as (C & O & _).
+  rewrite C, O. unfold out_after_period. destruct (v_tokens v =? 0); lia.
+Qed.
+
+Lemma trunc_le : forall x, 0 <= x -> 0 <= dec_trunc_int x /\ dec_of_int (dec_trunc_int x) <= x.
+Proof.
+  intros x X. unfold dec_trunc_int, dec_of_int. pose proof prec_pos.
+  rewrite Z.quot_div_nonneg by lia. split; [apply Z.div_pos; lia|].
+  pose proof (Z.mul_div_le x prec ltac:(lia)). lia.
+Qed.
+
+(* a withdrawal pays whole coins out of the outstanding rewards, never more than it takes out of them *)
+Lemma withdraw_rewards_pots : forall h a v v' paid, pots_ok v -> withdraw_rewards h a v = Ok (v', paid) ->
+  v_cur v' = 0 /\ 0 <= v_out v' /\ 0 <= paid /\ dec_of_int paid <= v_out v - v_out v'.
+Proof.
+  intros h a v v' paid P H.
+  apply withdraw_rewards_inv in H as (si & v1 & raw & v2 & G & I & C & -> & D & ->).
+  apply calc_rewards_nonneg in C.
+  destruct (incr_period_pots _ _ P I) as (C1 & O1).
+  apply dec_ref_ratio in D as (C2 & O2 & _). psimpl in *.
+  assert (0 <= Z.min raw (v_out v1)) by lia.
+  destruct (trunc_le _ H). rewrite C2, O2. repeat split; lia.
+Qed.
+
+Lemma pots_ok_of : forall v, v_cur v = 0 -> 0 <= v_out v -> pots_ok v.
+Proof. unfold pots_ok; intros; lia. Qed.
+
+(* ====================================================================== *)
+(* 7b. preservation of the per-validator invariant                         *)
+(* ====================================================================== *)
+Lemma wdr_pots : forall h a v v' paid, pots_ok v -> withdraw_delegation_rewards h a v = Ok (v', paid) ->
+  v_cur v' = 0 /\ 0 <= v_out v' /\ 0 <= paid /\ dec_of_int paid <= v_out v - v_out v'.
+Proof.
+  unfold withdraw_delegation_rewards; intros h a v v' paid P H.
+  destruct (kget a (v_dels v)) as [d|] eqn:G; [|discriminate].
+  apply bind_ok in H as ([v1 p1] & W & H). cbn [fst snd] in H.
+  apply bind_ok in H as (v2 & I & H). inversion H; subst; clear H.
+  destruct (withdraw_rewards_pots _ _ _ _ _ P W) as (C & O & Pd & Le).
+  apply init_delegation_frame in I as (_ & _ & _ & _ & C2 & O2 & _). rewrite C2, O2. auto.
+Qed.
+
+Lemma wdr_inv : forall h a v v' paid, VInv v -> withdraw_delegation_rewards h a v = Ok (v', paid) -> VInv v'.
+Proof.
+  intros h a v v' paid [F SD SU NN K T PO] H.
+  pose proof (wdr_F1 _ _ _ _ _ F H) as F'.
+  destruct (wdr_pots _ _ _ _ _ PO H) as (C & O & _).
+  apply wdr_frame in H as ((T1&S1&D1) & _ & _ & _ & Kd & Ks & _ & si & St & _).
+  constructor; try (rewrite ?D1, ?S1, ?T1; assumption).
+  - intros j. rewrite D1, St, khas_kset, khas_kdel.
+    destruct (Z.eqb_spec j a) as [->|]; [assumption|apply K].
+  - lia.
+Qed.
+
+Lemma ts_read_to_pots : forall h to v1 v2 toDel toFound pt,
+  pots_ok v1 -> ts_read_to h to v1 = Ok (v2, toDel, toFound, pt) ->
+  v_cur v2 = 0 /\ 0 <= v_out v2 /\ 0 <= pt /\ dec_of_int pt <= v_out v1 - v_out v2.
+Proof.
+  unfold ts_read_to; intros h to v1 v2 toDel toFound pt P H.
+  destruct (kget to (v_dels v1)) as [d|] eqn:G.
+  - apply bind_ok in H as ([w pw] & W & H). cbn [fst snd] in H. inversion H; subst; clear H.
+    eapply wdr_pots; eauto.
+  - apply bind_ok in H as (w & I & H). inversion H; subst; clear H.
+    destruct (incr_period_pots _ _ P I). unfold dec_of_int. repeat split; lia.
+Qed.
+
+Lemma ts_write_from_pots : forall tok vsh from fromDel shares v2 v3,
+  ts_write_from tok vsh from fromDel shares v2 = Ok v3 -> v_cur v3 = v_cur v2 /\ v_out v3 = v_out v2.
+Proof.
+  unfold ts_write_from; intros tok vsh from fromDel shares v2 v3 H.
+  destruct (fromDel - shares =? 0).
+  - apply bind_ok in H as (w & D & H). inversion H; subst; clear H.
+    apply dec_ref_ratio in D as (C & O & _). psimpl in *. auto.
+  - apply bind_ok in H as (stake & _ & H). inversion H; subst; clear H. psimpl. auto.
+Qed.
+
+Lemma ts_write_to_pots : forall h tok vsh to toDel shares toFound v3 v5,
+  ts_write_to h tok vsh to toDel shares toFound v3 = Ok v5 -> v_cur v5 = v_cur v3 /\ v_out v5 = v_out v3.
+Proof.
+  unfold ts_write_to; intros h tok vsh to toDel shares toFound v3 v5 H.
+  destruct (negb toFound).
+  - apply bind_ok in H as (w & I & H). apply inc_ref_precompile_ratio in I as (C & O & _).
+    apply bind_ok in H as (stake & _ & H). inversion H; subst; clear H. psimpl in *. auto.
+  - apply bind_ok in H as (stake & _ & H). inversion H; subst; clear H. psimpl. auto.
+Qed.
+
+(* conservation: what a transfer pays to both parties comes out of the validator's outstanding rewards,
+   which never go negative; rounding only ever leaves coins in the pool *)
+Lemma transfer_pots : forall h recv from to x v v' pf pt,
+  pots_ok v -> transfer_shares h recv from to x v = Ok (v', pf, pt) ->
+  v_cur v' = 0 /\ 0 <= v_out v' /\ 0 <= pf /\ 0 <= pt /\
+  dec_of_int pf + dec_of_int pt <= v_out v - v_out v'.
+Proof.
+  intros h recv from to x v v' pf pt P H.
+  apply transfer_shares_ok in H as (_ & H). unfold transfer_shares_prefix in H.
+  destruct (kget from (v_dels v)) as [fd|]; [|discriminate].
+  destruct recv; [discriminate|].
+  destruct (fd <? dec_of_int x); [discriminate|].
+  apply bind_ok in H as ([v1 p1] & W & H). cbn [fst snd] in H.
+  apply bind_ok in H as (r & R & H). destruct r as [[[v2 toDel] toFound] p2].
+  apply bind_ok in H as (v3 & WF & H).
+  apply bind_ok in H as (v5 & WT & H).
+  apply bind_ok in H as (t & _ & H). inversion H; subst v5 pf pt; clear H.
+  destruct (wdr_pots _ _ _ _ _ P W) as (C1 & O1 & P1 & L1).
+  destruct (ts_read_to_pots _ _ _ _ _ _ _ (pots_ok_of _ C1 O1) R) as (C2 & O2 & P2 & L2).
+  destruct (ts_write_from_pots _ _ _ _ _ _ _ WF) as (C3 & O3).
+  destruct (ts_write_to_pots _ _ _ _ _ _ _ _ _ WT) as (C5 & O5).
+  rewrite C5, C3, O5, O3. repeat split; lia.
+Qed.
+
+Lemma transfer_inv : forall h recv from to x v v' pf pt,
+  0 <= x -> VInv v -> transfer_shares h recv from to x v = Ok (v', pf, pt) -> VInv v'.
+Proof.
+  intros h recv from to x v v' pf pt X [F SD SU NN K T PO] H.
+  pose proof (transfer_pots _ _ _ _ _ _ _ _ _ PO H) as (PC & PO' & _).
   apply transfer_shares_ok in H as (N & H).
-  pose proof (transfer_dels _ _ _ _ _ _ _ H) as (fd & Gf & L & _ & Tk & Sh & _ & D).
+  pose proof (transfer_dels _ _ _ _ _ _ _ _ _ H) as (fd & Gf & L & _ & Tk & Sh & _ & D).
   pose proof (dec_of_int_nonneg x X) as X'.
   (* replay the blocks for the distribution part *)
   unfold transfer_shares_prefix in H. rewrite Gf in H.
   destruct recv; [discriminate|].
   destruct (fd <? dec_of_int x); [discriminate|].
-  apply bind_ok in H as (v1 & W & H).
-  apply bind_ok in H as (r & R & H). destruct r as [[v2 toDel] toFound].
+  apply bind_ok in H as ([v1 p1] & W & H). cbn [fst snd] in H.
+  apply bind_ok in H as (r & R & H). destruct r as [[[v2 toDel] toFound] p2].
   apply bind_ok in H as (v3 & WF & H).
   apply bind_ok in H as (v5 & WT & H).
-  apply bind_ok in H as (t & _ & H). inversion H; subst v5; clear H.
-  pose proof (wdr_F1 _ _ _ _ F W) as F1v.
-  apply wdr_frame in W as ((_&_&D1) & _ & _ & _ & Ksf & si1 & St1 & _).
-  pose proof (ts_read_to_F1 _ _ _ _ _ _ F1v R) as F2v.
+  apply bind_ok in H as (t & _ & H). inversion H; subst v5 pf pt; clear H.
+  pose proof (wdr_F1 _ _ _ _ _ F W) as F1v.
+  apply wdr_frame in W as ((_&_&D1) & _ & _ & _ & _ & Ksf & _ & si1 & St1 & _).
+  pose proof (ts_read_to_F1 _ _ _ _ _ _ _ F1v R) as F2v.
   apply ts_read_to_frame in R as (_ & _ & _ & C).
   assert (Gf2 : exists si, kget from (v_start v2) = Some si).
-  { destruct C as [(_&_&_&St2)|(_&_&_&si2&St2)]; rewrite St2.
+  { destruct C as [(_&_&_&St2)|(_&_&_&si2&St2&_)]; rewrite St2.
     - rewrite St1, kget_kset_same. eauto.
     - rewrite kget_kset_other, kget_kdel_other by assumption. rewrite St1, kget_kset_same. eauto. }
   destruct Gf2 as (si2 & Gf2).
@@ -754,7 +1007,7 @@ Proof.
   assert (Kto3 : if toFound return Prop then khas to (v_start v3) = true else kget to (v_start v3) = None).
   { assert (E3 : kget to (v_start v3) = kget to (v_start v2)).
     { rewrite St3. destruct (fd - dec_of_int x =? 0); [apply kget_kdel_other|apply kget_kset_other]; congruence. }
-    destruct C as [(-> & Gt & _ & St2)|(-> & Gt & _ & si & St2)].
+    destruct C as [(-> & Gt & _ & St2)|(-> & Gt & _ & si & St2 & _)].
     - rewrite E3, St2, St1, kget_kset_other, kget_kdel_other by congruence.
       apply khas_false. rewrite <- K. rewrite <- D1. now apply kget_khas_none.
     - unfold khas. rewrite E3, St2, kget_kset_same. reflexivity. }
@@ -782,7 +1035,7 @@ Proof.
   - intros j. rewrite D, St5, !khas_kset.
     destruct (Z.eqb_spec j to) as [->|Nt]; [reflexivity|].
     assert (E2 : khas j (v_start v2) = if j =? from then true else khas j (v_start v)).
-    { destruct C as [(_&_&_&St2)|(_&_&_&si&St2)]; rewrite St2.
+    { destruct C as [(_&_&_&St2)|(_&_&_&si&St2&_)]; rewrite St2.
       - rewrite St1, khas_kset, khas_kdel. destruct (j =? from); reflexivity.
       - rewrite khas_kset, khas_kdel. destruct (Z.eqb_spec j to); [contradiction|].
         rewrite St1, khas_kset, khas_kdel. destruct (j =? from); reflexivity. }
@@ -793,13 +1046,9 @@ Proof.
       destruct (Z.eqb_spec j from) as [->|Nf]; [reflexivity|].
       rewrite E2. destruct (Z.eqb_spec j from); [contradiction|apply K].
   - now rewrite Tk.
+  - lia.
 Qed.
 
-Lemma quot_nonneg : forall a b, 0 <= a -> 0 <= b -> 0 <= Z.quot a b.
-Proof.
-  intros a b A B. destruct (Z.eq_dec b 0) as [->|N]; [now rewrite Z.quot_0_r_ext|].
-  apply Z.quot_pos; lia.
-Qed.
 
 Lemma shares_from_tokens_nonneg : forall tok vsh amt s,
   0 <= tok -> 0 <= vsh -> 0 <= amt -> shares_from_tokens tok vsh amt = Ok s -> 0 <= s.
@@ -808,31 +1057,29 @@ Proof.
   destruct (tok =? 0); inversion H; subst. apply quot_nonneg; nia.
 Qed.
 
-Lemma F1_stk : forall v v',
-  v_hist v' = v_hist v -> v_start v' = v_start v -> v_slashes v' = v_slashes v -> v_period v' = v_period v ->
-  F1 v -> F1 v'.
-Proof. exact F1_ext. Qed.
-
-Lemma delegate_v_inv : forall h a amt v v' iss,
-  VInv v -> 0 <= amt -> delegate_v h a amt v = Ok (v', iss) -> VInv v'.
+Lemma delegate_v_inv : forall h a amt v v' iss paid,
+  VInv v -> 0 <= amt -> delegate_v h a amt v = Ok (v', iss, paid) -> VInv v' /\ 0 <= paid /\ 0 <= iss.
 Proof.
-  unfold delegate_v; intros h a amt v v' iss [F SD SU NN K T] A H.
+  unfold delegate_v; intros h a amt v v' iss paid [F SD SU NN K T PO] A H.
   destruct ((v_tokens v =? 0) && (0 <? v_shares v)); [discriminate|].
-  apply bind_ok in H as (v1 & H1 & H).
+  apply bind_ok in H as ([v1 p1] & H1 & H).
   assert (P1 : F1 v1 /\ stk_same v v1 /\ kget a (v_start v1) = None /\
-               (forall j, j <> a -> khas j (v_start v1) = khas j (v_start v))).
+               (forall j, j <> a -> khas j (v_start v1) = khas j (v_start v)) /\
+               v_cur v1 = 0 /\ 0 <= v_out v1 /\ 0 <= p1).
   { destruct (kget a (v_dels v)) as [d|] eqn:G.
-    - pose proof (withdraw_rewards_F1 _ _ _ F H1) as F'.
-      apply withdraw_rewards_frame in H1 as (S & _ & _ & St & _).
-      split; [exact F'|]. split; [exact S|]. split.
-      + rewrite St. apply kget_kdel_same.
-      + intros j Nj. rewrite St, khas_kdel. destruct (Z.eqb_spec j a); [contradiction|reflexivity].
-    - pose proof (incr_period_F1 _ _ F H1) as F'.
-      apply incr_period_spec in H1 as ((T1&S1&D1&St&_) & _ & _ & _).
+    - pose proof (withdraw_rewards_F1 _ _ _ _ _ F H1) as F'.
+      destruct (withdraw_rewards_pots _ _ _ _ _ PO H1) as (C & O & Pd & _).
+      apply withdraw_rewards_frame in H1 as (S & _ & _ & _ & St & _).
+      split; [exact F'|]. split; [exact S|]. split; [rewrite St; apply kget_kdel_same|]. split; [|auto].
+      intros j Nj. rewrite St, khas_kdel. destruct (Z.eqb_spec j a); [contradiction|reflexivity].
+    - apply bind_ok in H1 as (w & I & H1). inversion H1; subst w p1; clear H1.
+      pose proof (incr_period_F1 _ _ F I) as F'.
+      destruct (incr_period_pots _ _ PO I) as (C & O).
+      apply incr_period_spec in I as ((T1&S1&D1&St&_) & _ & _ & _).
       split; [exact F'|]. split; [unfold stk_same; auto|]. split.
       + rewrite St. apply khas_false. rewrite <- K. now apply kget_khas_none.
-      + intros j _. now rewrite St. }
-  destruct P1 as (F1v & (T1&S1&D1) & N1 & O1).
+      + split; [intros j _; now rewrite St|]. repeat split; lia. }
+  destruct P1 as (F1v & (T1&S1&D1) & N1 & O1 & C1 & Out1 & Pd1).
   assert (VS : 0 <= v_shares v) by (rewrite <- SU; now apply dsum_nonneg).
   apply bind_ok in H as (issued & HI & H).
   assert (I0 : 0 <= issued).
@@ -840,13 +1087,14 @@ Proof.
     - inversion HI; subst. now apply dec_of_int_nonneg.
     - destruct (shares_from_tokens (v_tokens v1) (v_shares v1) amt) as [s| |] eqn:E; inversion HI; subst.
       eapply shares_from_tokens_nonneg; [| | |exact E]; rewrite ?T1, ?S1; assumption. }
-  apply bind_ok in H as (v3 & HD & H). inversion H; subst v3 iss; clear H.
+  apply bind_ok in H as (v3 & HD & H). inversion H; subst v3 iss paid; clear H.
   match type of HD with init_delegation _ _ ?w = _ => set (v2 := w) in * end.
   assert (F2 : F1 v2) by (eapply F1_ext; [| | | |exact F1v]; reflexivity).
   pose proof (init_delegation_F1 _ _ _ _ F2 N1 HD) as F3.
-  apply init_delegation_frame in HD as ((T3&S3&D3) & _ & _ & _ & si & St3 & _).
-  cbn [v2 v_tokens v_shares v_dels v_start set_dels set_shares set_tokens] in T3, S3, D3, St3.
+  apply init_delegation_frame in HD as ((T3&S3&D3) & _ & _ & _ & C3 & O3 & _ & _ & si & St3 & _).
+  unfold v2 in T3, S3, D3, St3, C3, O3. psimpl in *.
   rewrite D1 in D3. rewrite S1 in S3. rewrite T1 in T3.
+  split; [|split; [exact Pd1|exact I0]].
   constructor.
   - exact F3.
   - rewrite D3. now apply sorted_kset.
@@ -858,6 +1106,7 @@ Proof.
   - intros j. rewrite D3, St3, !khas_kset.
     destruct (Z.eqb_spec j a) as [->|Nj]; [reflexivity|]. rewrite O1 by assumption. apply K.
   - rewrite T3. lia.
+  - lia.
 Qed.
 
 Lemma tokens_from_shares_nonneg : forall tok vsh sh t,
@@ -869,36 +1118,36 @@ Proof.
   apply chop_round_nonneg. apply quot_nonneg; [|assumption]. pose proof prec_pos. nia.
 Qed.
 
-Lemma unbond_v_inv : forall h a sh v v' t,
-  VInv v -> 0 <= sh -> unbond_v h a sh v = Ok (v', t) -> VInv v' /\ 0 <= t.
+Lemma unbond_v_inv : forall h a sh v v' t paid,
+  VInv v -> 0 <= sh -> unbond_v h a sh v = Ok (v', t, paid) -> VInv v' /\ 0 <= t /\ 0 <= paid.
 Proof.
-  unfold unbond_v; intros h a sh v v' t [F SD SU NN K T] A H.
+  unfold unbond_v; intros h a sh v v' t paid [F SD SU NN K T PO] A H.
   destruct (kget a (v_dels v)) as [dsh|] eqn:G; [|discriminate].
-  apply bind_ok in H as (v1 & W & H).
-  pose proof (withdraw_rewards_F1 _ _ _ F W) as F1v.
-  apply withdraw_rewards_frame in W as ((T1&S1&D1) & _ & _ & St1 & _).
+  apply bind_ok in H as ([v1 p1] & W & H).
+  pose proof (withdraw_rewards_F1 _ _ _ _ _ F W) as F1v.
+  destruct (withdraw_rewards_pots _ _ _ _ _ PO W) as (C1 & O1 & Pd1 & _).
+  apply withdraw_rewards_frame in W as ((T1&S1&D1) & _ & _ & _ & St1 & _).
   destruct (dsh <? sh) eqn:L; [discriminate|]. apply Z.ltb_ge in L.
   apply bind_ok in H as (v2 & H2 & H).
-  (* v2: the delegation and starting info rewritten, validator totals as before *)
   assert (P2 : F1 v2 /\ v_tokens v2 = v_tokens v /\ v_shares v2 = v_shares v /\
                v_dels v2 = (if dsh - sh =? 0 then kdel a (v_dels v) else kset a (dsh - sh) (v_dels v)) /\
-               (forall j, khas j (v_start v2) = if j =? a then negb (dsh - sh =? 0) else khas j (v_start v))).
+               (forall j, khas j (v_start v2) = if j =? a then negb (dsh - sh =? 0) else khas j (v_start v)) /\
+               v_cur v2 = 0 /\ 0 <= v_out v2).
   { destruct (dsh - sh =? 0).
-    - inversion H2; subst v2; clear H2.
-      cbn [v_tokens v_shares v_dels v_start set_dels].
+    - inversion H2; subst v2; clear H2. psimpl.
       split; [now apply F1_set_dels|]. repeat split; try congruence.
       intros j. rewrite St1, khas_kdel. reflexivity.
     - match type of H2 with init_delegation _ _ ?w = _ => set (w1 := w) in * end.
       assert (Fw : F1 w1) by (now apply F1_set_dels).
-      assert (Nw : kget a (v_start w1) = None) by (cbn; rewrite St1; apply kget_kdel_same).
+      assert (Nw : kget a (v_start w1) = None) by (unfold w1; psimpl; rewrite St1; apply kget_kdel_same).
       pose proof (init_delegation_F1 _ _ _ _ Fw Nw H2) as F2.
-      apply init_delegation_frame in H2 as ((T2&S2&D2) & _ & _ & _ & si & St2 & _).
-      cbn [w1 v_tokens v_shares v_dels v_start set_dels] in T2, S2, D2, St2.
+      apply init_delegation_frame in H2 as ((T2&S2&D2) & _ & _ & _ & C2 & O2 & _ & _ & si & St2 & _).
+      unfold w1 in T2, S2, D2, St2, C2, O2. psimpl in *.
       split; [exact F2|]. repeat split; try congruence.
       intros j. rewrite St2, St1, khas_kset, khas_kdel. destruct (j =? a); reflexivity. }
-  destruct P2 as (F2 & T2 & S2 & D2 & K2).
+  destruct P2 as (F2 & T2 & S2 & D2 & K2 & C2 & O2).
   assert (VI : VInv (set_shares (v_shares v2 - sh) v2)).
-  { constructor; cbn [v_tokens v_shares v_dels v_start v_hist v_period v_slashes set_shares].
+  { constructor; psimpl.
     - eapply F1_ext; [| | | |exact F2]; reflexivity.
     - rewrite D2. destruct (dsh - sh =? 0); [now apply sorted_kdel|now apply sorted_kset].
     - rewrite D2, S2. unfold dsum. destruct (dsh - sh =? 0) eqn:E.
@@ -911,41 +1160,40 @@ Proof.
     - intros j. rewrite K2, D2. destruct (dsh - sh =? 0).
       + rewrite khas_kdel. destruct (j =? a); [reflexivity|apply K].
       + rewrite khas_kset. destruct (j =? a); [reflexivity|apply K].
-    - rewrite T2. assumption. }
-  destruct VI as [Fa SDa SUa NNa Ka Ta].
-  cbn [v_tokens v_shares v_dels v_start v_hist v_period v_slashes set_shares] in *.
+    - rewrite T2. assumption.
+    - lia. }
+  destruct VI as [Fa SDa SUa NNa Ka Ta POa]. psimpl in *.
   destruct (v_shares v2 - sh =? 0).
-  - inversion H; subst v' t; clear H. split; [|lia].
-    constructor; cbn [v_tokens v_shares v_dels v_start v_hist v_period v_slashes set_shares set_tokens];
-      try assumption; [|lia].
+  - inversion H; subst v' t paid; clear H. split; [|lia].
+    constructor; psimpl; try assumption; [|lia].
     eapply F1_ext; [| | | |exact F2]; reflexivity.
   - apply bind_ok in H as (tk & TK & H).
     destruct (v_tokens v2 - dec_trunc_int tk <? 0) eqn:L2; [discriminate|]. apply Z.ltb_ge in L2.
-    inversion H; subst v' t; clear H. split.
-    + constructor; cbn [v_tokens v_shares v_dels v_start v_hist v_period v_slashes set_shares set_tokens];
-        try assumption.
+    inversion H; subst v' t paid; clear H. split.
+    + constructor; psimpl; try assumption.
       eapply F1_ext; [| | | |exact F2]; reflexivity.
-    + eapply tokens_from_shares_nonneg; [| | |exact TK]; try lia.
+    + split; [|exact Pd1]. eapply tokens_from_shares_nonneg; [| | |exact TK]; try lia.
       rewrite S2, <- SU. now apply dsum_nonneg.
 Qed.
 
-Lemma slash_v_inv : forall h power frac v v', VInv v -> slash_v h power frac v = Ok v' -> VInv v'.
+Lemma slash_burn_inv : forall h rem v v', VInv v -> slash_burn h rem v = Ok v' -> VInv v'.
 Proof.
-  unfold slash_v; intros h power frac v v' I H.
-  destruct (frac <? 0); [discriminate|].
-  set (burn := Z.max (Z.min (dec_trunc_int (dec_mul (dec_of_int (power * power_reduction)) frac)) (v_tokens v)) 0) in *.
+  unfold slash_burn; intros h rem v v' I H.
+  set (burn := Z.max (Z.min rem (v_tokens v)) 0) in *.
   destruct (burn =? 0); [inversion H; subst; assumption|].
-  destruct I as [[S R SP SL] SD SU NN K T].
+  destruct I as [[S R SP SL] SD SU NN K T PO].
   apply bind_ok in H as (v1 & IP & H).
-  apply incr_period_spec in IP as ((T1&S1&D1&St1&Sl1) & P1 & _ & HR1).
+  destruct (incr_period_pots _ _ PO IP) as (C1 & O1).
+  apply incr_period_spec in IP as ((T1&S1&D1&St1&Sl1&_) & P1 & _ & HR1).
   apply bind_ok in H as (v2 & IR & H). inversion H; subst v'; clear H.
-  apply inc_ref_spec in IR as ((T2&S2&D2&St2&Sl2) & P2 & HR2).
-  constructor; cbn [v_tokens v_shares v_dels v_start v_hist v_period v_slashes set_slashes set_tokens].
-  - constructor; cbn [v_tokens v_shares v_dels v_start v_hist v_period v_slashes set_slashes set_tokens].
+  pose proof (inc_ref_ratio _ _ _ IR) as (C2 & O2 & _).
+  apply inc_ref_spec in IR as ((T2&S2&D2&St2&Sl2&_) & P2 & HR2).
+  constructor; psimpl.
+  - constructor; psimpl.
     + now rewrite St2, St1.
     + intros p.
       rewrite (href_ext v2 _ p) by reflexivity.
-      rewrite HR2, HR1, St2, St1, Sl2, Sl1, P2, P1, cnt_slash_app. cbn [snd].
+      rewrite HR2, HR1, St2, St1, Sl2, Sl1, P2, P1, cnt_slash_app. change (sl_period (h, v_period v, (if prec <? dec_quo_roundup (dec_of_int burn) (dec_of_int (v_tokens v)) then prec else dec_quo_roundup (dec_of_int burn) (dec_of_int (v_tokens v))))) with (v_period v).
       replace (v_period v + 1 - 1) with (v_period v) by lia.
       rewrite (Z.eqb_sym (v_period v) p).
       destruct (Z.eqb_spec p (v_period v)) as [->|Np].
@@ -955,18 +1203,31 @@ Proof.
     + rewrite St2, St1, P2, P1. eapply Forall_impl; [|exact SP]. cbn; intros; lia.
     + rewrite Sl2, Sl1, P2, P1. apply Forall_app. split.
       * eapply Forall_impl; [|exact SL]. cbn; intros; lia.
-      * constructor; [cbn; lia|constructor].
+      * constructor; [unfold sl_period; cbn; lia|constructor].
   - now rewrite D2, D1.
   - now rewrite D2, D1, S2, S1.
   - now rewrite D2, D1.
   - intros j. rewrite D2, D1, St2, St1. apply K.
   - rewrite T2, T1. unfold burn. lia.
+  - lia.
 Qed.
 
 (* ====================================================================== *)
 (* 8. whole-state invariant, all operation lists                           *)
 (* ====================================================================== *)
-Definition SInv (s : state) : Prop := Forall VInv (s_vals s).
+Definition SInv (s : state) : Prop :=
+  Forall VInv (s_vals s) /\ Forall (fun e => 0 <= r_sh e) (s_reds s).
+
+(* VInv only reads these fields *)
+Lemma VInv_ext : forall v v',
+  v_tokens v' = v_tokens v -> v_shares v' = v_shares v -> v_dels v' = v_dels v ->
+  v_period v' = v_period v -> v_cur v' = v_cur v -> v_out v' = v_out v -> v_hist v' = v_hist v ->
+  v_start v' = v_start v -> v_slashes v' = v_slashes v -> VInv v -> VInv v'.
+Proof.
+  intros v v' E1 E2 E3 E4 E5 E6 E7 E8 E9 [F SD SU NN K T PO].
+  constructor; rewrite ?E1, ?E2, ?E3, ?E5, ?E6, ?E8; try assumption.
+  eapply F1_ext; [| | | |exact F]; assumption.
+Qed.
 
 Lemma vnth_Forall : forall (P : vstate -> Prop) l i v, Forall P l -> vnth i l = Some v -> P v.
 Proof.
@@ -982,16 +1243,31 @@ Qed.
 
 Lemma get_val_inv : forall s i v, SInv s -> get_val i s = Some v -> VInv v.
 Proof.
-  unfold SInv, get_val; intros s i v F H. destruct (i <? 0); [discriminate|]. eapply vnth_Forall; eauto.
+  unfold SInv, get_val; intros s i v [F _] H. destruct (i <? 0); [discriminate|]. eapply vnth_Forall; eauto.
 Qed.
 
 Lemma put_val_inv : forall s i v, SInv s -> VInv v -> SInv (put_val i v s).
-Proof. unfold SInv, put_val; intros; cbn. now apply Forall_vupd. Qed.
+Proof. unfold SInv, put_val; intros s i v [F R] V; cbn. split; [now apply Forall_vupd|exact R]. Qed.
+
+Lemma pay_inv : forall s a x, SInv s -> SInv (pay a x s).
+Proof. unfold SInv, pay; intros; cbn; assumption. Qed.
+
+Lemma set_ubds_inv : forall s l, SInv s -> SInv (set_ubds l s).
+Proof. unfold SInv; intros; cbn; assumption. Qed.
+
+Lemma set_allow_inv : forall s l, SInv s -> SInv (set_allow l s).
+Proof. unfold SInv; intros; cbn; assumption. Qed.
+
+Lemma red_insert_Forall : forall (P : red -> Prop) x l, P x -> Forall P l -> Forall P (red_insert x l).
+Proof.
+  intros P x l Px F. induction F as [|e r Pe F IH]; cbn; [constructor; [assumption|constructor]|].
+  destruct (red_le e x); [constructor; auto|]. constructor; [assumption|]. constructor; assumption.
+Qed.
 
 Lemma validate_unbond_nonneg : forall a amt v sh,
   VInv v -> 0 <= amt -> validate_unbond a amt v = Ok sh -> 0 <= sh.
 Proof.
-  unfold validate_unbond; intros a amt v sh [F SD SU NN K T] A H.
+  unfold validate_unbond; intros a amt v sh [F SD SU NN K T PO] A H.
   destruct (kget a (v_dels v)) as [dsh|] eqn:G; [|discriminate].
   apply bind_ok in H as (s1 & E1 & H). apply bind_ok in H as (s2 & _ & H).
   destruct (dsh <? s2); [discriminate|]. inversion H; subst; clear H.
@@ -1006,8 +1282,62 @@ Lemma do_transfer_inv : forall v from to x s s',
 Proof.
   unfold do_transfer; intros v from to x s s' X I H.
   destruct (get_val v s) as [vs|] eqn:G; [|discriminate].
-  apply bind_ok in H as (vs' & T & H). inversion H; subst.
-  apply put_val_inv; [assumption|]. eapply transfer_inv; eauto. eapply get_val_inv; eauto.
+  apply bind_ok in H as ([[vs' pf] pt] & T & H). inversion H; subst.
+  apply pay_inv, pay_inv. apply put_val_inv; [assumption|]. eapply transfer_inv; eauto. eapply get_val_inv; eauto.
+Qed.
+
+(* SlashRedelegation over the entries: every step is an Unbond on some destination validator *)
+Lemma slash_reds_inv : forall v ih frac l s tot s' tot',
+  0 <= frac -> Forall (fun e => 0 <= r_sh e) l -> SInv s ->
+  slash_reds v ih frac l s tot = Ok (s', tot') -> SInv s' /\ s_reds s' = s_reds s.
+Proof.
+  intros v ih frac l. induction l as [|e r IH]; intros s tot s' tot' FR FL I H; cbn [slash_reds] in H.
+  - inversion H; subst. auto.
+  - inversion FL as [|? ? Pe FL']; subst.
+    destruct ((r_src e =? v) && (ih <=? r_h e)); [|eapply IH; eauto].
+    destruct (slash_ubds_of (r_del e) (r_dst e) ih (dec_trunc_int (dec_mul_int frac (r_bal e))) (s_ubds s)) as [ubds' rest] eqn:SU.
+    set (s1 := set_ubds ubds' s) in *.
+    assert (I1 : SInv s1) by (apply set_ubds_inv; assumption).
+    destruct ((dec_mul frac (r_sh e) =? 0) || (rest =? 0)).
+    { destruct (IH _ _ _ _ FR FL' I1 H) as (A & B). split; [exact A|rewrite B; reflexivity]. }
+    destruct (get_val (r_dst e) s1) as [vd|] eqn:G; [|discriminate].
+    destruct (kget (r_del e) (v_dels vd)) as [dsh|] eqn:Gd.
+    2:{ destruct (IH _ _ _ _ FR FL' I1 H) as (A & B). split; [exact A|rewrite B; reflexivity]. }
+    apply bind_ok in H as ([[vd' tk] pd] & U & H).
+    pose proof (get_val_inv _ _ _ I1 G) as VI.
+    assert (SH : 0 <= (if dsh <? dec_mul frac (r_sh e) then dsh else dec_mul frac (r_sh e))).
+    { destruct VI as [_ _ _ NN _ _ _]. pose proof (nn_get _ _ _ NN Gd).
+      pose proof (dec_mul_nonneg frac (r_sh e) FR Pe). destruct (dsh <? dec_mul frac (r_sh e)); lia. }
+    destruct (unbond_v_inv _ _ _ _ _ _ _ VI SH U) as (VI' & _).
+    assert (I2 : SInv (pay (r_del e) pd (put_val (r_dst e) vd' s1))) by (apply pay_inv, put_val_inv; assumption).
+    destruct (IH _ _ _ _ FR FL' I2 H) as (A & B). split; [exact A|rewrite B; reflexivity].
+Qed.
+
+Lemma allocate_inv : forall r v, VInv v -> VInv (allocate r v).
+Proof.
+  intros r v [F SD SU NN K T PO]. unfold allocate.
+  constructor; psimpl; try assumption; [|lia].
+  eapply F1_ext; [| | | |exact F]; reflexivity.
+Qed.
+
+Lemma alloc_all_inv : forall rs l, Forall VInv l -> Forall VInv (alloc_all rs l).
+Proof.
+  intros rs l F. revert rs. induction F as [|v l V F IH]; intros rs; destruct rs; cbn; try constructor; auto.
+  now apply allocate_inv.
+Qed.
+
+Lemma end_block_v_inv : forall h m v, VInv v -> VInv (end_block_v h m v).
+Proof.
+  intros h m v V. unfold end_block_v.
+  destruct (active v); [eapply VInv_ext; [| | | | | | | | |exact V]; reflexivity|].
+  destruct (v_status v =? 0); [eapply VInv_ext; [| | | | | | | | |exact V]; reflexivity|].
+  destruct ((v_status v =? 1) && m); [eapply VInv_ext; [| | | | | | | | |exact V]; reflexivity|exact V].
+Qed.
+
+Lemma block_vals_inv : forall h m rs l, Forall VInv l -> Forall VInv (map (end_block_v h m) (alloc_all rs l)).
+Proof.
+  intros h m rs l F. apply Forall_map. eapply Forall_impl; [|apply alloc_all_inv; exact F].
+  intros v V. now apply end_block_v_inv.
 Qed.
 
 Lemma exec_inv : forall s o s', SInv s -> exec s o = Ok s' -> SInv s'.
@@ -1016,19 +1346,19 @@ Proof.
   - (* Delegate *)
     destruct (amt <=? 0) eqn:A; [discriminate|]. apply Z.leb_gt in A.
     destruct (get_val v s) as [vs|] eqn:G; [|discriminate].
-    apply bind_ok in H as ([v' iss] & D & H). inversion H; subst. cbn [fst].
-    apply put_val_inv; [assumption|]. eapply delegate_v_inv; [eapply get_val_inv; eauto| |exact D]. lia.
+    apply bind_ok in H as ([[v' iss] pd] & D & H). inversion H; subst.
+    apply pay_inv, put_val_inv; [assumption|].
+    eapply delegate_v_inv; [eapply get_val_inv; eauto| |exact D]. lia.
   - (* Undelegate *)
     destruct (amt <=? 0) eqn:A; [discriminate|]. apply Z.leb_gt in A.
     destruct (get_val v s) as [vs|] eqn:G; [|discriminate].
     pose proof (get_val_inv _ _ _ I G) as VI.
     apply bind_ok in H as (sh & V & H).
     destruct (max_entries <=? ubd_entries a v s); [discriminate|].
-    apply bind_ok in H as ([v' t] & U & H). inversion H; subst. cbn [fst].
-    assert (SInv (put_val v v' s)).
-    { apply put_val_inv; [assumption|]. eapply unbond_v_inv; [exact VI| |exact U].
-      eapply validate_unbond_nonneg; [exact VI| |exact V]. lia. }
-    destruct (ubd_has a v (s_height s) (put_val v v' s)); assumption.
+    apply bind_ok in H as ([[v' t] pd] & U & H). inversion H; subst.
+    apply set_ubds_inv, pay_inv, put_val_inv; [assumption|].
+    eapply unbond_v_inv; [exact VI| |exact U].
+    eapply validate_unbond_nonneg; [exact VI| |exact V]. lia.
   - (* Redelegate *)
     destruct (amt <=? 0) eqn:A; [discriminate|]. apply Z.leb_gt in A.
     destruct (get_val src s) as [vsrc|] eqn:Gs; [|discriminate].
@@ -1039,33 +1369,60 @@ Proof.
     pose proof (get_val_inv _ _ _ I Gd) as VId.
     destruct (has_receiving a src s); [discriminate|].
     destruct (max_entries <=? red_entries a src dst s); [discriminate|].
-    apply bind_ok in H as ([v1 t] & U & H). cbn [fst snd] in H.
+    apply bind_ok in H as ([[v1 t] p1] & U & H).
     destruct (t =? 0); [discriminate|].
-    apply bind_ok in H as ([v2 iss] & D & H). inversion H; subst. cbn [fst].
+    apply bind_ok in H as ([[v2 iss] p2] & D & H).
     assert (0 <= sh) by (eapply validate_unbond_nonneg; [exact VIs| |exact V]; lia).
-    destruct (unbond_v_inv _ _ _ _ _ _ VIs H0 U) as (VI1 & T0).
-    unfold SInv. cbn [s_vals set_reds]. fold (SInv (put_val dst v2 (put_val src v1 s))).
-    apply put_val_inv; [apply put_val_inv; assumption|].
-    eapply delegate_v_inv; [exact VId|exact T0|exact D].
+    destruct (unbond_v_inv _ _ _ _ _ _ _ VIs H0 U) as (VI1 & T0 & _).
+    destruct (delegate_v_inv _ _ _ _ _ _ _ VId T0 D) as (VI2 & _ & ISS).
+    assert (I1 : SInv (pay a p2 (pay a p1 (put_val dst v2 (put_val src v1 s))))).
+    { apply pay_inv, pay_inv, put_val_inv; [apply put_val_inv; assumption|assumption]. }
+    destruct (v_status v1 =? 2); inversion H; subst; [exact I1|].
+    destruct I1 as (IA & IB). split; [exact IA|]. cbn [s_reds set_reds].
+    apply red_insert_Forall; [cbn; exact ISS|exact IB].
   - (* Withdraw *)
     destruct (get_val v s) as [vs|] eqn:G; [|discriminate].
-    apply bind_ok in H as (vs' & W & H). inversion H; subst.
-    apply put_val_inv; [assumption|]. eapply wdr_inv; [eapply get_val_inv; eauto|exact W].
+    apply bind_ok in H as ([vs' pd] & W & H). inversion H; subst. cbn [fst snd].
+    apply pay_inv, put_val_inv; [assumption|]. eapply wdr_inv; [eapply get_val_inv; eauto|exact W].
   - (* Approve *)
-    destruct (x <? 0); inversion H; subst. exact I.
+    destruct (x <? 0); inversion H; subst. now apply set_allow_inv.
   - (* Transfer *)
     destruct (x <=? 0) eqn:A; [discriminate|]. apply Z.leb_gt in A.
     eapply do_transfer_inv; [|exact I|exact H]. lia.
   - (* TransferFrom *)
     destruct (x <=? 0) eqn:A; [discriminate|]. apply Z.leb_gt in A.
     destruct (aget (v, from, spender) (s_allow s) <? x); [discriminate|].
-    eapply do_transfer_inv; [| |exact H]; [lia|exact I].
-  - inversion H; subst. exact I.
-  - inversion H; subst. exact I.
+    eapply do_transfer_inv; [| |exact H]; [lia|now apply set_allow_inv].
+  - (* Block *)
+    inversion H; subst. destruct I as (IA & IB). split; cbn; [now apply block_vals_inv|exact IB].
+  - (* Mature *)
+    inversion H; subst. destruct I as (IA & IB). split; cbn; [now apply block_vals_inv|constructor].
   - (* SlashVal *)
     destruct (get_val v s) as [vs|] eqn:G; [|discriminate].
-    apply bind_ok in H as (vs' & W & H). inversion H; subst.
-    apply put_val_inv; [assumption|]. eapply slash_v_inv; [eapply get_val_inv; eauto|exact W].
+    pose proof (get_val_inv _ _ _ I G) as VI.
+    destruct (frac <? 0) eqn:FR; [discriminate|]. apply Z.ltb_ge in FR.
+    destruct (v_status vs =? 2); [discriminate|].
+    destruct (s_height s <? ih); [discriminate|].
+    destruct (ih =? s_height s).
+    + apply bind_ok in H as (vs' & B & H). inversion H; subst.
+      apply put_val_inv; [assumption|]. eapply slash_burn_inv; eauto.
+    + destruct (slash_ubds v ih frac (s_ubds s)) as [ubds' t1].
+      apply bind_ok in H as ([s1 t2] & R & H).
+      apply bind_ok in H as (vs' & B & H). inversion H; subst.
+      assert (I0 : SInv (set_ubds ubds' s)) by (now apply set_ubds_inv).
+      destruct I as (_ & IR).
+      destruct (slash_reds_inv _ _ _ _ _ _ _ _ FR IR I0 R) as (I1 & _).
+      apply put_val_inv; [assumption|]. eapply slash_burn_inv; eauto.
+  - (* Jail *)
+    destruct (get_val v s) as [vs|] eqn:G; [|discriminate].
+    destruct (v_jailed vs); inversion H; subst.
+    apply put_val_inv; [assumption|].
+    eapply VInv_ext; [| | | | | | | | |eapply get_val_inv; eauto]; reflexivity.
+  - (* Unjail *)
+    destruct (get_val v s) as [vs|] eqn:G; [|discriminate].
+    destruct (v_jailed vs); inversion H; subst.
+    apply put_val_inv; [assumption|].
+    eapply VInv_ext; [| | | | | | | | |eapply get_val_inv; eauto]; reflexivity.
 Qed.
 
 Lemma step_inv : forall s o, SInv s -> SInv (fst (step s o)).
@@ -1089,7 +1446,7 @@ Proof.
   - constructor.
     + cbn [gen_v v_start sorted]. split; [constructor|exact I].
     + intros p. unfold href, cnt_start.
-      cbn [gen_v v_hist v_start v_slashes v_period kget ksumf cnt_slash si_prev snd].
+      cbn [gen_v v_hist v_start v_slashes v_period kget ksumf cnt_slash si_prev snd fst].
       replace (2 - 1) with 1 by reflexivity. rewrite (Z.eqb_sym 1 p).
       destruct (p =? 1); reflexivity.
     + cbn [gen_v v_start v_period]. constructor; [cbn; lia|constructor].
@@ -1099,13 +1456,14 @@ Proof.
   - cbn [gen_v v_dels]. constructor; [|constructor]. cbn [snd]. unfold dec_of_int, power_reduction, prec. lia.
   - intros a. unfold khas. cbn [gen_v v_dels v_start kget]. destruct (a =? op_base + i); reflexivity.
   - cbn [gen_v v_tokens]. unfold power_reduction, prec. lia.
+  - cbn [gen_v v_cur v_out]. lia.
 Qed.
 
 Lemma gen_vals_inv : forall n i, Forall VInv (gen_vals n i).
 Proof. induction n; intros i; cbn; constructor; [apply gen_v_inv|apply IHn]. Qed.
 
 Theorem gen_state_inv : forall n, SInv (gen_state n).
-Proof. intros n. unfold SInv; cbn. apply gen_vals_inv. Qed.
+Proof. intros n. unfold SInv; cbn. split; [apply gen_vals_inv|constructor]. Qed.
 
 (* ====================================================================== *)
 (* 10. the property, stated on states                                      *)
@@ -1139,6 +1497,15 @@ Qed.
 Definition val_dget (s : state) (v a : Z) : Z :=
   match get_val v s with Some vs => dget a vs | None => 0 end.
 
+Lemma get_val_pay : forall s a x w, get_val w (pay a x s) = get_val w s.
+Proof. reflexivity. Qed.
+
+Lemma paid_of_pay_same : forall s a x, paid_of a (pay a x s) = paid_of a s + x.
+Proof. intros. unfold paid_of at 1, pay. cbn [s_paid set_paid]. now rewrite kget_kset_same. Qed.
+
+Lemma paid_of_pay_other : forall s a b x, b <> a -> paid_of b (pay a x s) = paid_of b s.
+Proof. intros. unfold paid_of, pay. cbn [s_paid set_paid]. now rewrite kget_kset_other. Qed.
+
 Lemma do_transfer_exact : forall v from to x s s',
   do_transfer v from to x s = Ok s' ->
   from <> to /\ exists vs vs', get_val v s = Some vs /\ get_val v s' = Some vs' /\
@@ -1152,13 +1519,14 @@ Lemma do_transfer_exact : forall v from to x s s',
 Proof.
   unfold do_transfer; intros v from to x s s' H.
   destruct (get_val v s) as [vs|] eqn:G; [|discriminate].
-  apply bind_ok in H as (vs' & T & H). inversion H; subst; clear H.
+  apply bind_ok in H as ([[vs' pf] pt] & T & H). inversion H; subst; clear H.
   pose proof (transfer_shares_ok _ _ _ _ _ _ _ T) as (N & TP).
-  pose proof (transfer_dels _ _ _ _ _ _ _ TP) as (_ & _ & _ & RV & _).
-  pose proof (transfer_exact_v _ _ _ _ _ _ _ T) as (_ & A & B & C & D & E & F).
-  split; [exact N|]. exists vs, vs'. split; [reflexivity|]. split; [eapply get_put_same; eauto|].
+  pose proof (transfer_dels _ _ _ _ _ _ _ _ _ TP) as (_ & _ & _ & RV & _).
+  pose proof (transfer_exact_v _ _ _ _ _ _ _ _ _ T) as (_ & A & B & C & D & E & F).
+  split; [exact N|]. exists vs, vs'. split; [reflexivity|].
+  split; [rewrite !get_val_pay; eapply get_put_same; eauto|].
   repeat (split; [assumption|]).
-  split; [intros w Nw; eapply get_put_other; eauto|]. split; [reflexivity|exact RV].
+  split; [intros w Nw; rewrite !get_val_pay; eapply get_put_other; eauto|]. split; [reflexivity|exact RV].
 Qed.
 
 (* C11, transfer part: an accepted transfer has sender <> recipient and moves exactly x shares; the
@@ -1306,9 +1674,16 @@ Proof.
   apply run_inv. apply gen_state_inv.
 Qed.
 
+
 (* ====================================================================== *)
-(* 11. every delegator can withdraw: the bookkeeping never blocks it       *)
+(* 11. withdrawing / undelegating is never blocked by the bookkeeping       *)
 (* ====================================================================== *)
+(* The only thing left that can stop a withdrawal is the SDK's own sanity check inside
+   CalculateDelegationRewards (stake vs. current worth of the shares, negative ratio difference): *)
+Definition calc_ok (h a : Z) (v : vstate) : Prop :=
+  forall v1 si, incr_period v = Ok v1 -> kget a (v_start v) = Some si ->
+  exists raw, calc_rewards h (v_period v) si (dget a v) v1 = Ok raw.
+
 Lemma dsum_ge : forall m a d,
   Forall (fun e : Z * Z => 0 <= snd e) m -> kget a m = Some d -> d <= dsum m.
 Proof.
@@ -1320,75 +1695,34 @@ Proof.
   - specialize (IH E). unfold idf at 1. lia.
 Qed.
 
-Lemma withdraw_live_v : forall h a v d,
-  VInv v -> kget a (v_dels v) = Some d -> 0 < d ->
-  exists v', withdraw_delegation_rewards h a v = Ok v'.
+Lemma withdraw_rewards_live : forall h a v si,
+  F1 v -> pots_ok v -> kget a (v_start v) = Some si -> calc_ok h a v ->
+  exists v1 paid, withdraw_rewards h a v = Ok (v1, paid) /\ href (v_period v1 - 1) v1 = 1.
 Proof.
-  intros h a v d [[S R SP SL] SD SU NN K T] G D.
-  unfold withdraw_delegation_rewards. rewrite G.
-  assert (Ks : khas a (v_start v) = true) by (rewrite <- K; eapply kget_khas; eauto).
-  apply khas_true in Ks as (si & Gs).
+  intros h a v si [S R SP SL] PO Gs CO.
   assert (Psi : si_prev si < v_period v) by (destruct (kget_Forall _ _ _ _ SP Gs) as [k' Hk]; exact Hk).
   unfold withdraw_rewards. rewrite Gs.
   destruct (incr_period_ok v) as (v1 & I1).
   { rewrite R, Z.eqb_refl. pose proof (cnt_start_nonneg (v_period v - 1) (v_start v)).
     pose proof (cnt_slash_nonneg (v_period v - 1) (v_slashes v)). cbn [b2z]. lia. }
+  { unfold pots_ok in PO. lia. }
   rewrite I1. cbn [bind].
-  pose proof (incr_period_spec _ _ I1) as ((T1&S1&D1&St1&Sl1) & P1 & _ & HR1).
-  rewrite St1, Gs.
-  destruct (dec_ref_ok (si_prev si) v1) as (v2 & I2).
-  { rewrite HR1. destruct (Z.eqb_spec (si_prev si) (v_period v)); [lia|]. rewrite R.
+  destruct (CO v1 si I1 Gs) as (raw & C).
+  pose proof (incr_period_spec _ _ I1) as ((T1&S1&D1&St1&Sl1&_) & P1 & _ & HR1).
+  rewrite St1, Gs. unfold dget in C. cbn [gof] in C.
+  replace (match kget a (v_dels v) with Some d => d | None => 0 end) with (gof idf (kget a (v_dels v)))
+    by (destruct (kget a (v_dels v)); reflexivity).
+  rewrite C. cbn [bind].
+  set (v1' := set_out (v_out v1 - Z.min raw (v_out v1)) v1).
+  destruct (dec_ref_ok (si_prev si) v1') as (v2 & I2).
+  { rewrite (href_ext v1 v1') by reflexivity.
+    rewrite HR1. destruct (Z.eqb_spec (si_prev si) (v_period v)); [lia|]. rewrite R.
     pose proof (cnt_start_ge1 _ _ _ Gs). pose proof (cnt_slash_nonneg (si_prev si) (v_slashes v)). bz. }
   rewrite I2. cbn [bind].
-  pose proof (dec_ref_spec _ _ _ I2) as ((T2&S2&D2&St2&Sl2) & P2 & _ & HR2).
-  unfold init_delegation. cbn [v_period set_start].
-  destruct (inc_ref_ok (v_period v2 - 1) (set_start (kdel a (v_start v2)) v2)) as (v3 & I3).
-  { rewrite (href_ext v2 _ _) by reflexivity. rewrite HR2, HR1, P2, P1.
-    replace (v_period v + 1 - 1) with (v_period v) by lia. rewrite Z.eqb_refl.
-    destruct (Z.eqb_spec (v_period v) (si_prev si)); [lia|]. cbn [b2z]. lia. }
-  rewrite I3. cbn [bind].
-  pose proof (inc_ref_spec _ _ _ I3) as ((T3&S3&D3&St3&Sl3) & P3 & HR3).
-  cbn [v_tokens v_shares v_dels set_start] in T3, S3, D3.
-  rewrite D3, D2, D1, G.
-  unfold tokens_from_shares_trunc. rewrite S3, S2, S1.
-  destruct (v_shares v =? 0) eqn:E; [exfalso|cbn [bind]; eauto].
-  apply Z.eqb_eq in E. rewrite <- SU in E.
-  pose proof (dsum_ge _ _ _ NN G). lia.
-Qed.
-
-Theorem withdraw_live : forall n ops v vs a d,
-  let s := run (gen_state n) ops in
-  get_val v s = Some vs -> kget a (v_dels vs) = Some d -> 0 < d ->
-  snd (step s (Withdraw v a)) = true.
-Proof.
-  intros n ops v vs a d s G Gd D.
-  assert (VI : VInv vs).
-  { eapply get_val_inv; [|exact G]. apply run_inv. apply gen_state_inv. }
-  destruct (withdraw_live_v (s_height s) a vs d VI Gd D) as (v' & W).
-  unfold step. cbn [exec]. rewrite G, W. reflexivity.
-Qed.
-
-(* ---------- ... and from undelegating whatever amount the staking module accepts ---------- *)
-Lemma withdraw_rewards_live : forall a v si,
-  F1 v -> kget a (v_start v) = Some si ->
-  exists v1, withdraw_rewards a v = Ok v1 /\ href (v_period v1 - 1) v1 = 1.
-Proof.
-  intros a v si [S R SP SL] Gs.
-  assert (Psi : si_prev si < v_period v) by (destruct (kget_Forall _ _ _ _ SP Gs) as [k' Hk]; exact Hk).
-  unfold withdraw_rewards. rewrite Gs.
-  destruct (incr_period_ok v) as (v1 & I1).
-  { rewrite R, Z.eqb_refl. pose proof (cnt_start_nonneg (v_period v - 1) (v_start v)).
-    pose proof (cnt_slash_nonneg (v_period v - 1) (v_slashes v)). cbn [b2z]. lia. }
-  rewrite I1. cbn [bind].
-  pose proof (incr_period_spec _ _ I1) as ((T1&S1&D1&St1&Sl1) & P1 & _ & HR1).
-  rewrite St1, Gs.
-  destruct (dec_ref_ok (si_prev si) v1) as (v2 & I2).
-  { rewrite HR1. destruct (Z.eqb_spec (si_prev si) (v_period v)); [lia|]. rewrite R.
-    pose proof (cnt_start_ge1 _ _ _ Gs). pose proof (cnt_slash_nonneg (si_prev si) (v_slashes v)). bz. }
-  rewrite I2. cbn [bind].
-  pose proof (dec_ref_spec _ _ _ I2) as ((T2&S2&D2&St2&Sl2) & P2 & _ & HR2).
-  eexists. split; [reflexivity|].
-  cbn [v_period set_start]. rewrite (href_ext v2 _ _) by reflexivity. rewrite HR2, HR1, P2, P1.
+  pose proof (dec_ref_spec _ _ _ I2) as (_ & P2 & _ & HR2).
+  eexists. eexists. split; [reflexivity|].
+  psimpl. rewrite (href_ext v2 _ _) by reflexivity. rewrite HR2, P2.
+  rewrite (href_ext v1 v1') by reflexivity. unfold v1'. psimpl. rewrite HR1, P1.
   replace (v_period v + 1 - 1) with (v_period v) by lia. rewrite Z.eqb_refl.
   destruct (Z.eqb_spec (v_period v) (si_prev si)); [lia|]. cbn [b2z]. lia.
 Qed.
@@ -1399,9 +1733,39 @@ Lemma init_delegation_live : forall h a v d,
 Proof.
   intros h a v d H G NZ. unfold init_delegation.
   destruct (inc_ref_ok _ _ H) as (v1 & I1). rewrite I1. cbn [bind].
-  pose proof (inc_ref_spec _ _ _ I1) as ((T1&S1&D1&St1&Sl1) & P1 & _).
+  pose proof (inc_ref_spec _ _ _ I1) as ((T1&S1&D1&St1&Sl1&_) & P1 & _).
   rewrite D1, G. unfold tokens_from_shares_trunc. rewrite S1.
   destruct (v_shares v =? 0) eqn:E; [apply Z.eqb_eq in E; contradiction|]. cbn [bind]. eauto.
+Qed.
+
+Lemma withdraw_live_v : forall h a v d,
+  VInv v -> kget a (v_dels v) = Some d -> 0 < d -> calc_ok h a v ->
+  exists r, withdraw_delegation_rewards h a v = Ok r.
+Proof.
+  intros h a v d [F SD SU NN K T PO] G D CO.
+  unfold withdraw_delegation_rewards. rewrite G.
+  assert (Ks : khas a (v_start v) = true) by (rewrite <- K; eapply kget_khas; eauto).
+  apply khas_true in Ks as (si & Gs).
+  destruct (withdraw_rewards_live h a v si F PO Gs CO) as (v1 & paid & W & H1).
+  rewrite W. cbn [bind fst snd].
+  apply withdraw_rewards_frame in W as ((T1&S1&D1) & _).
+  destruct (init_delegation_live h a v1 d) as (v2 & I2).
+  - lia.
+  - now rewrite D1.
+  - rewrite S1, <- SU. pose proof (dsum_ge _ _ _ NN G). lia.
+  - rewrite I2. cbn [bind]. eauto.
+Qed.
+
+Theorem withdraw_live : forall n ops v vs a d,
+  let s := run (gen_state n) ops in
+  get_val v s = Some vs -> kget a (v_dels vs) = Some d -> 0 < d -> calc_ok (s_height s) a vs ->
+  snd (step s (Withdraw v a)) = true.
+Proof.
+  intros n ops v vs a d s G Gd D CO.
+  assert (VI : VInv vs).
+  { eapply get_val_inv; [|exact G]. apply run_inv. apply gen_state_inv. }
+  destruct (withdraw_live_v (s_height s) a vs d VI Gd D CO) as (r & W).
+  unfold step. cbn [exec]. rewrite G, W. reflexivity.
 Qed.
 
 (* RemoveDelShares never asks for more tokens than the validator has *)
@@ -1423,14 +1787,14 @@ Proof.
 Qed.
 
 Lemma unbond_live_v : forall h a sh v d,
-  VInv v -> kget a (v_dels v) = Some d -> 0 < d -> 0 <= sh <= d ->
+  VInv v -> kget a (v_dels v) = Some d -> 0 < d -> 0 <= sh <= d -> calc_ok h a v ->
   exists r, unbond_v h a sh v = Ok r.
 Proof.
-  intros h a sh v d VI G D SH. pose proof VI as [F SD SU NN K T].
+  intros h a sh v d VI G D SH CO. pose proof VI as [F SD SU NN K T PO].
   assert (Ks : khas a (v_start v) = true) by (rewrite <- K; eapply kget_khas; eauto).
   apply khas_true in Ks as (si & Gs).
-  destruct (withdraw_rewards_live a v si F Gs) as (v1 & W & H1).
-  pose proof (withdraw_rewards_frame _ _ _ W) as ((T1&S1&D1) & _ & _ & St1 & _).
+  destruct (withdraw_rewards_live h a v si F PO Gs CO) as (v1 & paid & W & H1).
+  pose proof (withdraw_rewards_frame _ _ _ _ _ W) as ((T1&S1&D1) & _ & _ & _ & St1 & _).
   assert (VS : d <= v_shares v) by (rewrite <- SU; eapply dsum_ge; eauto).
   unfold unbond_v. rewrite G, W. cbn [bind].
   destruct (d <? sh) eqn:L; [apply Z.ltb_lt in L; lia|].
@@ -1438,13 +1802,13 @@ Proof.
                            else init_delegation h a (set_dels (kset a (d - sh) (v_dels v1)) v1)) = Ok v2 /\
                           v_tokens v2 = v_tokens v /\ v_shares v2 = v_shares v).
   { destruct (d - sh =? 0).
-    - eexists. split; [reflexivity|]. cbn. auto.
+    - eexists. split; [reflexivity|]. psimpl. auto.
     - destruct (init_delegation_live h a (set_dels (kset a (d - sh) (v_dels v1)) v1) (d - sh)) as (v2 & I2).
-      + cbn [v_period set_dels]. rewrite (href_ext v1 _ _) by reflexivity. lia.
-      + cbn [v_dels set_dels]. apply kget_kset_same.
-      + cbn [v_shares set_dels]. lia.
+      + psimpl. rewrite (href_ext v1 _ _) by reflexivity. lia.
+      + psimpl. apply kget_kset_same.
+      + psimpl. lia.
       + exists v2. split; [exact I2|].
-        apply init_delegation_frame in I2 as ((T2&S2&_) & _). cbn in T2, S2. split; congruence. }
+        apply init_delegation_frame in I2 as ((T2&S2&_) & _). psimpl in *. split; congruence. }
   destruct E2 as (v2 & E2 & T2 & S2). rewrite E2. cbn [bind].
   destruct (v_shares v2 - sh =? 0); [eauto|].
   unfold tokens_from_shares. rewrite S2, T2.
@@ -1467,25 +1831,201 @@ Theorem undelegate_live : forall n ops v vs a d amt sh,
   let s := run (gen_state n) ops in
   get_val v s = Some vs -> kget a (v_dels vs) = Some d -> 0 < d ->
   0 < amt -> validate_unbond a amt vs = Ok sh -> ubd_entries a v s < max_entries ->
+  calc_ok (s_height s) a vs ->
   snd (step s (Undelegate v a amt)) = true.
 Proof.
-  intros n ops v vs a d amt sh s G Gd D A V U.
+  intros n ops v vs a d amt sh s G Gd D A V U CO.
   assert (VI : VInv vs).
   { eapply get_val_inv; [|exact G]. apply run_inv. apply gen_state_inv. }
   assert (0 <= sh) by (eapply validate_unbond_nonneg; [exact VI| |exact V]; lia).
   pose proof (validate_unbond_le _ _ _ _ _ Gd V).
-  destruct (unbond_live_v (s_height s) a sh vs d VI Gd D ltac:(lia)) as (r & R).
+  destruct (unbond_live_v (s_height s) a sh vs d VI Gd D ltac:(lia) CO) as ([[v' t] pd] & R).
   unfold step. cbn [exec].
   destruct (amt <=? 0) eqn:E; [apply Z.leb_le in E; lia|].
   rewrite G, V. cbn [bind].
   destruct (max_entries <=? ubd_entries a v s) eqn:E2; [apply Z.leb_le in E2; lia|].
-  rewrite R. cbn [bind]. destruct (ubd_has a v (s_height s) (put_val v (fst r) s)); reflexivity.
+  rewrite R. cbn [bind]. reflexivity.
 Qed.
 
 (* ====================================================================== *)
-(* 12. the PRE-FIX defect (documentation only) and non-vacuity             *)
+(* 12. reward entitlements across a transfer                               *)
 (* ====================================================================== *)
-Definition wit_setup : list op := [Block; Delegate 0 0 (100 * prec); Block].
+(* what each party is paid: the sender exactly what a withdrawal on the pre-state pays; the recipient
+   nothing if it had no delegation, otherwise what a withdrawal pays right after the sender's *)
+Lemma transfer_pays : forall h recv from to x v v' pf pt,
+  transfer_shares h recv from to x v = Ok (v', pf, pt) ->
+  exists v1, withdraw_delegation_rewards h from v = Ok (v1, pf) /\
+    match kget to (v_dels v) with
+    | None => pt = 0
+    | Some _ => exists v2, withdraw_delegation_rewards h to v1 = Ok (v2, pt)
+    end.
+Proof.
+  intros h recv from to x v v' pf pt H.
+  apply transfer_shares_ok in H as (_ & H). unfold transfer_shares_prefix in H.
+  destruct (kget from (v_dels v)) as [fd|]; [|discriminate].
+  destruct recv; [discriminate|].
+  destruct (fd <? dec_of_int x); [discriminate|].
+  apply bind_ok in H as ([v1 p1] & W & H). cbn [fst snd] in H.
+  apply bind_ok in H as (r & R & H). destruct r as [[[v2 toDel] toFound] p2].
+  apply bind_ok in H as (v3 & WF & H).
+  apply bind_ok in H as (v5 & WT & H).
+  apply bind_ok in H as (t & _ & H). inversion H; subst v5 pf pt; clear H.
+  exists v1. split; [exact W|].
+  pose proof (wdr_frame _ _ _ _ _ W) as ((_&_&D1) & _).
+  unfold ts_read_to in R. rewrite D1 in R.
+  destruct (kget to (v_dels v)) as [d|].
+  - apply bind_ok in R as ([w pw] & W2 & R). cbn [fst snd] in R. inversion R; subst. eauto.
+  - apply bind_ok in R as (w & _ & R). inversion R; subst. reflexivity.
+Qed.
+
+Lemma ts_write_from_height : forall tok vsh from fromDel shares v2 v3 si0,
+  ts_write_from tok vsh from fromDel shares v2 = Ok v3 -> kget from (v_start v2) = Some si0 ->
+  (forall si, kget from (v_start v3) = Some si -> si_height si = si_height si0) /\
+  (forall c, c <> from -> kget c (v_start v3) = kget c (v_start v2)).
+Proof.
+  unfold ts_write_from; intros tok vsh from fromDel shares v2 v3 si0 H G. rewrite G in H.
+  destruct (fromDel - shares =? 0).
+  - apply bind_ok in H as (w & D & H). inversion H; subst; clear H.
+    apply dec_ref_spec in D as ((_&_&_&St&_) & _). psimpl in *. rewrite St. split.
+    + intros si E. rewrite kget_kdel_same in E. discriminate.
+    + intros c N. now apply kget_kdel_other.
+  - apply bind_ok in H as (stake & _ & H). inversion H; subst; clear H. psimpl. split.
+    + intros si E. rewrite kget_kset_same in E. inversion E; subst. reflexivity.
+    + intros c N. now apply kget_kset_other.
+Qed.
+
+Lemma ts_write_to_height : forall h tok vsh to toDel shares toFound v3 v5,
+  ts_write_to h tok vsh to toDel shares toFound v3 = Ok v5 ->
+  (forall si, kget to (v_start v5) = Some si ->
+     if toFound then forall si0, kget to (v_start v3) = Some si0 -> si_height si = si_height si0
+     else si_height si = h) /\
+  (forall c, c <> to -> kget c (v_start v5) = kget c (v_start v3)).
+Proof.
+  unfold ts_write_to; intros h tok vsh to toDel shares toFound v3 v5 H.
+  destruct toFound; cbn [negb] in H.
+  - apply bind_ok in H as (stake & _ & H). inversion H; subst; clear H. psimpl. split.
+    + intros si E. rewrite kget_kset_same in E. inversion E; subst. cbn [si_height].
+      intros si0 G. now rewrite G.
+    + intros c N. now apply kget_kset_other.
+  - apply bind_ok in H as (w & I & H).
+    apply inc_ref_precompile_spec in I as ((_&_&_&St&_) & _).
+    apply bind_ok in H as (stake & _ & H). inversion H; subst; clear H. psimpl in *. rewrite St. split.
+    + intros si E. rewrite kget_kset_same in E. inversion E; subst. reflexivity.
+    + intros c N. now apply kget_kset_other.
+Qed.
+
+(* after a transfer both parties' starting infos begin at this height *)
+Lemma transfer_start_heights : forall h recv from to x v v' pf pt,
+  transfer_shares h recv from to x v = Ok (v', pf, pt) ->
+  forall a si, a = from \/ a = to -> kget a (v_start v') = Some si -> si_height si = h.
+Proof.
+  intros h recv from to x v v' pf pt H.
+  apply transfer_shares_ok in H as (N & H). unfold transfer_shares_prefix in H.
+  destruct (kget from (v_dels v)) as [fd|]; [|discriminate].
+  destruct recv; [discriminate|].
+  destruct (fd <? dec_of_int x); [discriminate|].
+  apply bind_ok in H as ([v1 p1] & W & H). cbn [fst snd] in H.
+  apply bind_ok in H as (r & R & H). destruct r as [[[v2 toDel] toFound] p2].
+  apply bind_ok in H as (v3 & WF & H).
+  apply bind_ok in H as (v5 & WT & H).
+  apply bind_ok in H as (t & _ & H). inversion H; subst v5 pf pt; clear H.
+  apply wdr_frame in W as (_ & _ & _ & _ & _ & _ & _ & s1 & St1 & _ & H1).
+  apply ts_read_to_frame in R as (_ & _ & _ & C).
+  assert (G2 : kget from (v_start v2) = Some s1).
+  { destruct C as [(_&_&_&St2)|(_&_&_&s2&St2&_)]; rewrite St2.
+    - now rewrite St1, kget_kset_same.
+    - rewrite kget_kset_other, kget_kdel_other by assumption. now rewrite St1, kget_kset_same. }
+  destruct (ts_write_from_height _ _ _ _ _ _ _ _ WF G2) as (HF & OF).
+  destruct (ts_write_to_height _ _ _ _ _ _ _ _ _ WT) as (HT & OT).
+  intros a si [->| ->] E.
+  - rewrite OT in E by assumption. rewrite (HF _ E). exact H1.
+  - specialize (HT _ E). destruct C as [(-> & _)|(-> & _ & _ & s2 & St2 & H2)]; [exact HT|].
+    (* found: to's starting info was rewritten by its own withdrawal at this height *)
+    assert (G3 : kget to (v_start v3) = Some s2).
+    { rewrite OF by congruence. now rewrite St2, kget_kset_same. }
+    rewrite (HT _ G3). exact H2.
+Qed.
+
+Lemma calc_zero_same_height : forall h e si d v, si_height si = h -> calc_rewards h e si d v = Ok 0.
+Proof. intros h e si d v E. unfold calc_rewards. rewrite E, Z.eqb_refl. reflexivity. Qed.
+
+(* nothing is pending for a delegation whose starting info begins at this height *)
+Lemma pending_zero : forall h a v si r,
+  pots_ok v -> kget a (v_start v) = Some si -> si_height si = h -> pending h a v = Ok r -> r = 0.
+Proof.
+  unfold pending, withdraw_delegation_rewards; intros h a v si r PO G E H.
+  apply bind_ok in H as ([v' p] & H & R). cbn [snd] in R. inversion R as [Rp]; clear R.
+  destruct (kget a (v_dels v)) as [d|]; [|discriminate].
+  apply bind_ok in H as ([v1 p1] & W & H). cbn [fst snd] in H.
+  apply bind_ok in H as (v2 & _ & H). inversion H as [[Hv Hp]]; clear H.
+  apply withdraw_rewards_inv in W as (si' & w1 & raw & w2 & G' & I & C & Pd & _).
+  rewrite G in G'. inversion G' as [Gs]. rewrite <- Gs in C.
+  rewrite (calc_zero_same_height h _ si _ _ E) in C. inversion C as [Cr].
+  destruct (incr_period_pots _ _ PO I) as (_ & O).
+  rewrite <- Rp, <- Hp, Pd, <- Cr. rewrite Z.min_l by lia. reflexivity.
+Qed.
+
+(* C11, rewards: what a transfer pays, to whom, out of which pot, and that nothing stays pending *)
+Definition transfer_rewards_spec (s s' : state) (v from to : Z) : Prop :=
+  exists vs vs' pf pt,
+    get_val v s = Some vs /\ get_val v s' = Some vs' /\
+    (* the sender is paid exactly what a withdrawal on the pre-state pays, the recipient only if it had a delegation *)
+    pending (s_height s) from vs = Ok pf /\
+    (kget to (v_dels vs) = None -> pt = 0) /\
+    paid_of from s' = paid_of from s + pf /\ paid_of to s' = paid_of to s + pt /\
+    (forall c, c <> from -> c <> to -> paid_of c s' = paid_of c s) /\
+    (* it comes out of the validator's outstanding rewards, which stay non-negative *)
+    0 <= pf /\ 0 <= pt /\ dec_of_int pf + dec_of_int pt <= v_out vs - v_out vs' /\ 0 <= v_out vs' /\
+    (* and afterwards nothing is pending for either party, no undistributed rewards are left behind *)
+    v_cur vs' = 0 /\
+    (forall a r, a = from \/ a = to -> pending (s_height s) a vs' = Ok r -> r = 0).
+
+Lemma do_transfer_rewards : forall s s' v from to x,
+  SInv s -> do_transfer v from to x s = Ok s' -> transfer_rewards_spec s s' v from to.
+Proof.
+  intros s s' v from to x I H.
+  unfold do_transfer in H. destruct (get_val v s) as [vs|] eqn:G; [|discriminate].
+  apply bind_ok in H as ([[vs' pf] pt] & T & H). inversion H; subst; clear H.
+  pose proof (get_val_inv _ _ _ I G) as [_ _ _ _ _ _ PO].
+  destruct (transfer_pots _ _ _ _ _ _ _ _ _ PO T) as (C' & O' & Pf & Pt & Le).
+  destruct (transfer_pays _ _ _ _ _ _ _ _ _ T) as (v1 & W & Wt).
+  pose proof (transfer_start_heights _ _ _ _ _ _ _ _ _ T) as SH.
+  pose proof (transfer_shares_ok _ _ _ _ _ _ _ T) as (N & _).
+  exists vs, vs', pf, pt.
+  split; [exact G|]. split; [rewrite !get_val_pay; eapply get_put_same; eauto|].
+  split; [unfold pending; rewrite W; reflexivity|].
+  split; [intros E; rewrite E in Wt; exact Wt|].
+  split; [rewrite paid_of_pay_other by assumption; now rewrite paid_of_pay_same|].
+  split; [rewrite paid_of_pay_same; now rewrite paid_of_pay_other by congruence|].
+  split; [intros c N1 N2; now rewrite !paid_of_pay_other by assumption|].
+  repeat (split; [assumption|]).
+  intros a r Ha P.
+  unfold pending in P. destruct (withdraw_delegation_rewards (s_height s) a vs') as [[w pw]| |] eqn:W2; cbn in P; try discriminate.
+  pose proof (wdr_frame _ _ _ _ _ W2) as (_ & _ & _ & _ & _ & Ks & _).
+  apply khas_true in Ks as (si & Gs).
+  eapply (pending_zero (s_height s) a vs' si r); [apply pots_ok_of; assumption|exact Gs|eapply SH; eauto|].
+  unfold pending. rewrite W2. exact P.
+Qed.
+
+Theorem transfer_rewards : forall s s' v from to x,
+  SInv s -> exec s (Transfer v from to x) = Ok s' -> transfer_rewards_spec s s' v from to.
+Proof.
+  intros s s' v from to x I H. cbn [exec] in H. destruct (x <=? 0); [discriminate|].
+  eapply do_transfer_rewards; eauto.
+Qed.
+
+Theorem transfer_from_rewards : forall s s' v spender from to x,
+  SInv s -> exec s (TransferFrom v spender from to x) = Ok s' -> transfer_rewards_spec s s' v from to.
+Proof.
+  intros s s' v spender from to x I H. cbn [exec] in H. destruct (x <=? 0); [discriminate|].
+  destruct (aget (v, from, spender) (s_allow s) <? x); [discriminate|].
+  apply (do_transfer_rewards _ _ _ _ _ _ (set_allow_inv _ _ I)) in H. exact H.
+Qed.
+
+(* ====================================================================== *)
+(* 13. the PRE-FIX defect (documentation only) and non-vacuity             *)
+(* ====================================================================== *)
+Definition wit_setup : list op := [Block []; Delegate 0 0 (100 * prec); Block []].
 Definition wit_pre : state := run (gen_state 2) wit_setup.
 
 (* PRE-FIX code only: with the body of handlerTransferShares as it was before commit 458669b
@@ -1493,39 +2033,298 @@ Definition wit_pre : state := run (gen_state 2) wit_setup.
    100 FX — sends itself 40 shares and holds 40 shares more while the validator's shares are unchanged.
    This was finding C11-1; the current function refuses the call (self_transfer_refused). *)
 Theorem prefix_self_transfer_witness :
-  exists vs vs', get_val 0 wit_pre = Some vs /\
-    transfer_shares_prefix (s_height wit_pre) false 0 0 40 vs = Ok vs' /\
+  exists vs vs' pf pt, get_val 0 wit_pre = Some vs /\
+    transfer_shares_prefix (s_height wit_pre) false 0 0 40 vs = Ok (vs', pf, pt) /\
     dget 0 vs = dec_of_int (100 * prec) /\
     dget 0 vs' = dec_of_int (100 * prec) + dec_of_int 40 /\
     v_shares vs' = dec_of_int (200 * prec) /\
     dsum (v_dels vs') = dec_of_int (200 * prec) + dec_of_int 40.
 Proof.
-  eexists. eexists. split; [vm_compute; reflexivity|].
+  eexists. eexists. eexists. eexists. split; [vm_compute; reflexivity|].
   split; [vm_compute; reflexivity|]. repeat split; vm_compute; reflexivity.
 Qed.
 
 Definition all_ok (s : state) (ops : list op) : bool :=
   snd (fold_left (fun acc o => let '(st, ok) := acc in let '(st', b) := step st o in (st', ok && b)) ops (s, true)).
 
-(* a history in which every kind of operation is accepted: transfers to an existing and to a new
-   delegator, a full transfer, transferFrom within an allowance, slashing, redelegation, undelegation *)
+(* a history in which every kind of operation is accepted: rewards flow, transfers to an existing and to a
+   new delegator, a full transfer, transferFrom within an allowance, slashing now and for a past height
+   (with a redelegation and an unbonding entry in reach), jailing (the validator leaves the bonded set),
+   a transfer on the unbonding validator, unjailing, redelegation, undelegation *)
 Definition ex_ops : list op :=
-  [Block; Delegate 0 0 (1000 * prec); Delegate 0 1 (500 * prec); Block;
-   SlashVal 0 10 (prec / 20); Delegate 1 2 (77 * prec + 5); Block;
+  [Block []; Delegate 0 0 (1000 * prec); Delegate 0 1 (500 * prec); Block [3 * prec * prec; 2 * prec * prec];
+   SlashVal 0 3 10 (prec / 20); Delegate 1 2 (77 * prec + 5); Block [5 * prec * prec + 7; prec * prec];
    Transfer 0 0 1 (100 * prec); Approve 0 1 2 (50 * prec); TransferFrom 0 2 1 0 (50 * prec);
-   Transfer 0 1 3 7; Redelegate 0 1 1 (10 * prec); Undelegate 0 0 (5 * prec); Withdraw 0 1; Block;
-   Transfer 1 2 0 (dec_trunc_int (val_dget (run (gen_state 2)
-      [Block; Delegate 0 0 (1000 * prec); Delegate 0 1 (500 * prec); Block;
-       SlashVal 0 10 (prec / 20); Delegate 1 2 (77 * prec + 5)]) 1 2));
-   Mature].
+   Transfer 0 1 3 7; Redelegate 0 1 1 (10 * prec); Undelegate 0 0 (5 * prec); Withdraw 0 1;
+   Block [prec * prec; prec * prec];
+   SlashVal 0 4 3 (prec / 10);
+   Jail 0; Block [prec * prec; prec * prec]; Transfer 0 0 3 (20 * prec);
+   Block [prec * prec; prec * prec]; Withdraw 0 3; Unjail 0;
+   Block [prec * prec; prec * prec];
+   Mature [0; 0]].
 
 Theorem nonvacuous :
   all_ok (gen_state 2) ex_ops = true /\
-  val_dget (run (gen_state 2) ex_ops) 0 3 = dec_of_int 7 /\
+  val_dget (run (gen_state 2) ex_ops) 0 3 = dec_of_int 7 + dec_of_int (20 * prec) /\
   aget (0, 1, 2) (s_allow (run (gen_state 2) ex_ops)) = 0 /\
-  0 < val_dget (run (gen_state 2) ex_ops) 0 1 /\
+  0 < paid_of 0 (run (gen_state 2) ex_ops) /\ 0 < paid_of 1 (run (gen_state 2) ex_ops) /\
+  0 < paid_of 3 (run (gen_state 2) ex_ops) /\
   step (run (gen_state 2) ex_ops) (Transfer 0 1 1 1) = (run (gen_state 2) ex_ops, false).
 Proof.
   split; [vm_compute; reflexivity|]. split; [vm_compute; reflexivity|].
+  split; [vm_compute; reflexivity|]. split; [vm_compute; reflexivity|].
   split; [vm_compute; reflexivity|]. split; [vm_compute; reflexivity|]. apply self_transfer_refused.
+Qed.
+
+(* ====================================================================== *)
+(* 14. the incoming-redelegation guard in both entry points                *)
+(*     (over the call-path facts generated from the source, gen/Gen_C11.v)  *)
+(* ====================================================================== *)
+Lemma has_receiving_set_allow : forall a v l s, has_receiving a v (set_allow l s) = has_receiving a v s.
+Proof. reflexivity. Qed.
+
+(* whatever the facts are: if the sender is among the guarded values, an accepted call means the sender
+   has no incoming redelegation on that validator *)
+Lemma entry_guard : forall ef v caller afrom ato x s s',
+  In (ef_sender ef) (ef_guards ef) -> exec_entry ef v caller afrom ato x s = Ok s' ->
+  has_receiving (subj_eval (ef_sender ef) caller afrom ato) v s = false.
+Proof.
+  unfold exec_entry; intros ef v caller afrom ato x s s' IN H.
+  destruct (x <=? 0); [discriminate|].
+  apply bind_ok in H as (s1 & A & H).
+  assert (R : forall a, has_receiving a v s1 = has_receiving a v s).
+  { destruct (ef_allow ef) as [[o sp]|]; [|inversion A; reflexivity].
+    destruct (aget _ _ <? x); [discriminate|]. inversion A; subst. reflexivity. }
+  destruct (get_val v s1) as [vs|]; [|discriminate].
+  apply bind_ok in H as ([[vs' pf] pt] & T & _).
+  apply transfer_shares_ok in T as (_ & T).
+  apply transfer_dels in T as (_ & _ & _ & RV & _).
+  rewrite <- R.
+  destruct (has_receiving (subj_eval (ef_sender ef) caller afrom ato) v s1) eqn:E; [|reflexivity].
+  exfalso. assert (X : existsb (fun g => has_receiving (subj_eval g caller afrom ato) v s1) (ef_guards ef) = true).
+  { apply existsb_exists. exists (ef_sender ef). split; assumption. }
+  rewrite X in RV. discriminate.
+Qed.
+
+(* the model's two operations are the entry points the generated facts describe *)
+Theorem entry_transfer_agrees : forall s v from to x,
+  exec_entry gen_transfer_facts v from from to x s = exec s (Transfer v from to x).
+Proof.
+  intros. unfold exec_entry, gen_transfer_facts.
+  cbn [ef_allow ef_guards ef_sender ef_recipient subj_eval existsb bind exec].
+  destruct (x <=? 0); [reflexivity|]. unfold do_transfer. rewrite orb_false_r. reflexivity.
+Qed.
+
+Theorem entry_transfer_from_agrees : forall s v spender from to x,
+  exec_entry gen_transfer_from_facts v spender from to x s = exec s (TransferFrom v spender from to x).
+Proof.
+  intros. unfold exec_entry, gen_transfer_from_facts.
+  cbn [ef_allow ef_guards ef_sender ef_recipient subj_eval existsb exec].
+  destruct (x <=? 0); [reflexivity|].
+  destruct (aget (v, from, spender) (s_allow s) <? x); [reflexivity|]. cbn [bind].
+  unfold do_transfer. rewrite orb_false_r. reflexivity.
+Qed.
+
+(* in BOTH entry points the guard is applied to the account whose shares leave *)
+Theorem guard_both_entry_points :
+  In (ef_sender gen_transfer_facts) (ef_guards gen_transfer_facts) /\
+  In (ef_sender gen_transfer_from_facts) (ef_guards gen_transfer_from_facts) /\
+  (forall s s' v from to x, exec s (Transfer v from to x) = Ok s' -> has_receiving from v s = false) /\
+  (forall s s' v spender from to x,
+     exec s (TransferFrom v spender from to x) = Ok s' -> has_receiving from v s = false).
+Proof.
+  assert (A : In (ef_sender gen_transfer_facts) (ef_guards gen_transfer_facts)) by (cbn; auto).
+  assert (B : In (ef_sender gen_transfer_from_facts) (ef_guards gen_transfer_from_facts)) by (cbn; auto).
+  split; [exact A|]. split; [exact B|]. split.
+  - intros s s' v from to x H. rewrite <- entry_transfer_agrees in H.
+    exact (entry_guard _ _ _ _ _ _ _ _ A H).
+  - intros s s' v spender from to x H. rewrite <- entry_transfer_from_agrees in H.
+    exact (entry_guard _ _ _ _ _ _ _ _ B H).
+Qed.
+
+(* ====================================================================== *)
+(* 15. the recipient's entitlement does not depend on the sender's withdrawal *)
+(* ====================================================================== *)
+(* the reward CalculateDelegationRewards computes for a at the end of the current period, before it is
+   clipped to the outstanding rewards and truncated to whole coins *)
+Definition raw_reward (h a : Z) (v : vstate) : res Z :=
+  v1 <- incr_period v ;;
+  match kget a (v_start v) with
+  | Some si => calc_rewards h (v_period v) si (dget a v) v1
+  | None => Err
+  end.
+
+Lemma rewards_between_ext : forall sp ep ep' stake va vb,
+  hratio sp va = hratio sp vb -> hratio ep va = hratio ep' vb -> sp <= ep -> sp <= ep' ->
+  rewards_between sp ep stake va = rewards_between sp ep' stake vb.
+Proof.
+  unfold rewards_between; intros sp ep ep' stake va vb H1 H2 L1 L2.
+  destruct (ep <? sp) eqn:E1; [apply Z.ltb_lt in E1; lia|].
+  destruct (ep' <? sp) eqn:E2; [apply Z.ltb_lt in E2; lia|].
+  now rewrite H1, H2.
+Qed.
+
+(* the walk over the slash events reads the ratios only at the starting period and at event periods *)
+Lemma slash_walk_ext : forall evs sh eh va vb rw st sp,
+  (forall e, In e evs -> hratio (sl_period e) va = hratio (sl_period e) vb) ->
+  hratio sp va = hratio sp vb ->
+  slash_walk evs sh eh va (rw, st, sp) = slash_walk evs sh eh vb (rw, st, sp).
+Proof.
+  induction evs as [|[[hh p] f] r IH]; intros sh eh va vb rw st sp HE HS; cbn [slash_walk]; [reflexivity|].
+  destruct ((sh <=? hh) && (hh <=? eh) && (sp <? p)) eqn:C.
+  - apply andb_prop in C as (_ & C). apply Z.ltb_lt in C.
+    assert (HP : hratio p va = hratio p vb) by (apply (HE (hh, p, f)); left; reflexivity).
+    rewrite (rewards_between_ext sp p p st va vb HS HP) by lia.
+    destruct (rewards_between sp p st vb); cbn [bind]; try reflexivity.
+    apply IH; [intros e IN; apply HE; right; exact IN|exact HP].
+  - apply IH; [intros e IN; apply HE; right; exact IN|exact HS].
+Qed.
+
+Lemma slash_walk_sp : forall evs sh eh v rw st sp rw' st' sp',
+  slash_walk evs sh eh v (rw, st, sp) = Ok (rw', st', sp') ->
+  sp' = sp \/ exists e, In e evs /\ sp' = sl_period e.
+Proof.
+  induction evs as [|[[hh p] f] r IH]; intros sh eh v rw st sp rw' st' sp' H; cbn [slash_walk] in H.
+  - inversion H; auto.
+  - destruct ((sh <=? hh) && (hh <=? eh) && (sp <? p)).
+    + apply bind_ok in H as (dr & _ & H). apply IH in H as [->|(e & IN & ->)].
+      * right. exists (hh, p, f). split; [left; reflexivity|reflexivity].
+      * right. exists e. split; [right; exact IN|reflexivity].
+    + apply IH in H as [->|(e & IN & ->)]; [auto|]. right. exists e. split; [right; exact IN|reflexivity].
+Qed.
+
+Lemma calc_ext : forall h ea eb si d va vb,
+  v_slashes va = v_slashes vb -> v_tokens va = v_tokens vb -> v_shares va = v_shares vb ->
+  hratio (si_prev si) va = hratio (si_prev si) vb ->
+  (forall e, In e (v_slashes va) -> hratio (sl_period e) va = hratio (sl_period e) vb) ->
+  hratio ea va = hratio eb vb ->
+  si_prev si <= ea -> si_prev si <= eb ->
+  (forall e, In e (v_slashes va) -> sl_period e <= ea /\ sl_period e <= eb) ->
+  calc_rewards h ea si d va = calc_rewards h eb si d vb.
+Proof.
+  unfold calc_rewards; intros h ea eb si d va vb SL TK SH H0 HE HEnd B1 B2 BE.
+  destruct (si_height si =? h); [reflexivity|].
+  rewrite <- SL, <- TK, <- SH.
+  assert (W : (if si_height si <? h then slash_walk (v_slashes va) (si_height si) h va (0, si_stake si, si_prev si)
+               else Ok (0, si_stake si, si_prev si)) =
+              (if si_height si <? h then slash_walk (v_slashes va) (si_height si) h vb (0, si_stake si, si_prev si)
+               else Ok (0, si_stake si, si_prev si))).
+  { destruct (si_height si <? h); [|reflexivity]. now apply slash_walk_ext. }
+  rewrite <- W.
+  destruct (if si_height si <? h then slash_walk (v_slashes va) (si_height si) h va (0, si_stake si, si_prev si)
+            else Ok (0, si_stake si, si_prev si)) as [[[rw st] sp]| |] eqn:WA; cbn [bind]; try reflexivity.
+  assert (SP : sp = si_prev si \/ exists e, In e (v_slashes va) /\ sp = sl_period e).
+  { destruct (si_height si <? h); [eapply slash_walk_sp; exact WA|inversion WA; auto]. }
+  destruct (tokens_from_shares (v_tokens va) (v_shares va) d); cbn [bind]; try reflexivity.
+  destruct (if a <? st then if st <=? a + 3 then Ok a else Pan else Ok st); cbn [bind]; try reflexivity.
+  rewrite (rewards_between_ext sp ea eb a0 va vb); [reflexivity| |exact HEnd| |].
+  - destruct SP as [->|(e & IN & ->)]; [exact H0|now apply HE].
+  - destruct SP as [->|(e & IN & ->)]; [exact B1|apply (BE e IN)].
+  - destruct SP as [->|(e & IN & ->)]; [exact B2|apply (BE e IN)].
+Qed.
+
+Lemma cnt_slash_ge1 : forall q l e, In e l -> sl_period e = q -> 1 <= cnt_slash q l.
+Proof.
+  induction l as [|x r IH]; intros e IN E; [destruct IN|]. cbn [cnt_slash].
+  pose proof (cnt_slash_nonneg q r). destruct IN as [->|IN].
+  - rewrite E, Z.eqb_refl. cbn [b2z]. lia.
+  - specialize (IH _ IN E). pose proof (b2z_nonneg (sl_period x =? q)). lia.
+Qed.
+
+Lemma cnt_start_ge2 : forall m a b sa sb,
+  sorted m -> a <> b -> kget a m = Some sa -> kget b m = Some sb -> si_prev sa = si_prev sb ->
+  2 <= cnt_start (si_prev sa) m.
+Proof.
+  intros m a b sa sb S N Ga Gb E.
+  assert (G' : kget b (kdel a m) = Some sb) by (rewrite kget_kdel_other by congruence; assumption).
+  pose proof (cnt_start_ge1 _ _ _ G') as H1. rewrite <- E in H1.
+  unfold cnt_start in *. rewrite ksumf_kdel in H1 by assumption. rewrite Ga in H1. cbn [gof] in H1.
+  rewrite Z.eqb_refl in H1. cbn [b2z] in H1. lia.
+Qed.
+
+Lemma period_ratio_zero : forall v, v_cur v = 0 -> period_ratio v = 0.
+Proof.
+  intros v C. unfold period_ratio, dec_quo_trunc. rewrite C. destruct (v_tokens v =? 0); reflexivity.
+Qed.
+
+(* "a transfer can neither lose nor duplicate reward entitlement": after the sender's rewards have been
+   withdrawn (the first thing a transfer does), the reward computed for the recipient is the one computed on
+   the state before the transfer *)
+Theorem recipient_entitlement_unchanged : forall h from to v v1 pf,
+  VInv v -> from <> to -> withdraw_delegation_rewards h from v = Ok (v1, pf) ->
+  raw_reward h to v1 = raw_reward h to v.
+Proof.
+  intros h from to v v1 pf VI N W. pose proof VI as [F SD SU NN K T PO].
+  pose proof (wdr_F1 _ _ _ _ _ F W) as F1v1.
+  destruct (wdr_pots _ _ _ _ _ PO W) as (C1 & O1 & _).
+  pose proof (wdr_frame _ _ _ _ _ W) as ((T1&S1&D1) & Sl1 & _ & P1 & _ & _ & _ & s1 & St1 & Pv1 & _).
+  (* open the sender's withdrawal *)
+  unfold withdraw_delegation_rewards in W.
+  destruct (kget from (v_dels v)) as [fd|]; [|discriminate].
+  apply bind_ok in W as ([w pw] & WR & W). cbn [fst snd] in W.
+  apply bind_ok in W as (w2 & ID & W). inversion W; subst w2 pw; clear W.
+  apply withdraw_rewards_inv in WR as (sf & vA & raw & v2 & Gf & IA & _ & _ & DR & ->).
+  pose proof (incr_period_F1 _ _ F IA) as FA.
+  pose proof (incr_period_spec _ _ IA) as ((TA&SA&DA&StA&SlA&_) & PA & _ & HRA).
+  pose proof (incr_period_ratio _ _ IA) as (_ & _ & _ & RAe & RAo).
+  pose proof (dec_ref_ratio _ _ _ DR) as (_ & _ & R2).
+  pose proof (dec_ref_spec _ _ _ DR) as ((T2&S2&D2&St2&Sl2&_) & P2 & _ & _).
+  assert (R1 : v_ratio v1 = v_ratio v2).
+  { unfold init_delegation in ID. apply bind_ok in ID as (x & IR & ID).
+    apply inc_ref_ratio in IR as (_ & _ & RR). psimpl in RR.
+    destruct (kget from (v_dels x)); [|discriminate]. apply bind_ok in ID as (st & _ & ID).
+    inversion ID; subst. psimpl. exact RR. }
+  assert (H12 : forall q, hratio q v1 = hratio q v2) by (intros q; unfold hratio; now rewrite R1).
+  assert (Pf : si_prev sf < v_period v).
+  { destruct F as [_ _ SP _]. destruct (kget_Forall _ _ _ _ SP Gf) as [k' Hk]. exact Hk. }
+  (* the ratios the recipient's reward reads survive the sender's release of its starting period *)
+  assert (KEEP : forall q, q < v_period v ->
+            (q = si_prev sf -> 2 <= cnt_start q (v_start v) + cnt_slash q (v_slashes v)) ->
+            hratio q v1 = hratio q vA).
+  { intros q Lq C2. rewrite H12. psimpl in R2. rewrite R2; [reflexivity|].
+    destruct (Z.eq_dec q (si_prev sf)) as [E|E]; [right|left; exact E].
+    rewrite (href_ext vA _ _) by reflexivity.
+    destruct FA as [_ RA _ _]. rewrite RA, StA, SlA, <- E.
+    pose proof (b2z_nonneg (q =? v_period vA - 1)). specialize (C2 E). lia. }
+  (* the second period end adds nothing: no rewards arrived in between *)
+  assert (HP1 : 2 <= href (v_period v) v1).
+  { destruct F1v1 as [_ R1' _ _]. rewrite R1', P1.
+    replace (v_period v + 1 - 1) with (v_period v) by lia. rewrite Z.eqb_refl. cbn [b2z].
+    assert (G1 : kget from (v_start v1) = Some s1) by (rewrite St1; apply kget_kset_same).
+    pose proof (cnt_start_ge1 _ _ _ G1) as X. rewrite Pv1 in X.
+    pose proof (cnt_slash_nonneg (v_period v) (v_slashes v1)). lia. }
+  unfold raw_reward.
+  assert (Gto : kget to (v_start v1) = kget to (v_start v)).
+  { rewrite St1, kget_kset_other, kget_kdel_other by congruence. reflexivity. }
+  rewrite Gto, IA. cbn [bind].
+  destruct (incr_period_ok v1) as (vB & IB).
+  { rewrite P1. replace (v_period v + 1 - 1) with (v_period v) by lia. lia. }
+  { intros _. lia. }
+  rewrite IB. cbn [bind].
+  destruct (kget to (v_start v)) as [st|] eqn:Gt; [|reflexivity].
+  pose proof (incr_period_spec _ _ IB) as ((TB&SB&DB&StB&SlB&_) & PB & _ & _).
+  pose proof (incr_period_ratio _ _ IB) as (_ & _ & _ & RBe & RBo).
+  rewrite P1 in RBe, RBo. replace (v_period v + 1 - 1) with (v_period v) in RBe, RBo by lia.
+  rewrite (period_ratio_zero _ C1) in RBe.
+  assert (HB : forall q, q <> v_period v + 1 -> hratio q vB = hratio q v1).
+  { intros q Nq. apply RBo; [exact Nq|]. right. lia. }
+  destruct F as [SS RF SP SL].
+  assert (Pt : si_prev st < v_period v) by (destruct (kget_Forall _ _ _ _ SP Gt) as [k' Hk]; exact Hk).
+  unfold dget. rewrite D1, P1.
+  apply calc_ext.
+  - congruence.
+  - congruence.
+  - congruence.
+  - rewrite HB by lia. apply KEEP; [exact Pt|]. intros E.
+    pose proof (cnt_start_ge2 _ _ _ _ _ SS (not_eq_sym N) Gt Gf E) as X.
+    pose proof (cnt_slash_nonneg (si_prev st) (v_slashes v)). lia.
+  - intros e IN. rewrite SlB, Sl1 in IN.
+    assert (Le : sl_period e < v_period v) by (rewrite Forall_forall in SL; exact (SL e IN)).
+    rewrite HB by lia. apply KEEP; [exact Le|]. intros E.
+    pose proof (cnt_slash_ge1 _ _ _ IN E) as X. pose proof (cnt_start_ge1 _ _ _ Gf) as Y. rewrite E. lia.
+  - rewrite RBe. rewrite H12. psimpl in R2. rewrite R2 by (left; lia). unfold hratio. psimpl. lia.
+  - lia.
+  - lia.
+  - intros e IN. rewrite SlB, Sl1 in IN.
+    assert (Le : sl_period e < v_period v) by (rewrite Forall_forall in SL; exact (SL e IN)). lia.
 Qed.
